@@ -751,4 +751,1504 @@ theorem ok_transfer {G G' : BGraph} (hw : GWF G) (hv : G.verts.Perm G'.verts)
     · intro h2 h3
       exact ((vertex_dichotomy hw hf hv').mp (h1.mpr h3)) h2
 
+theorem nodup_zipIdx_map {α : Type} (l : List α) (f : Nat → PyId) (hf : ∀ a b, f a = f b → a = b) :
+    (l.zipIdx.map (fun vi => f vi.2)).Nodup := by
+  have : l.zipIdx.map (fun vi => f vi.2) = (l.zipIdx.map Prod.snd).map f := by
+    rw [List.map_map]; rfl
+  rw [this, List.zipIdx_map_snd]
+  exact List.Pairwise.map f (fun a b hab h => hab (hf a b h)) (List.nodup_range' 1)
+
+theorem int_inj (a b : Nat) (h : PyId.int (a : Nat) = PyId.int (b : Nat)) : a = b := by
+  simp only [PyId.int, PyId.atom.injEq, Atom.int.injEq, Int.natCast_inj] at h; exact h
+
+theorem mem_verts_toBG (h : Net) (x : PyId) (f : Option Int) :
+    (x, f) ∈ (toBipartiteGraph h).G.verts ↔
+      (∃ i v, h.nodes[i]? = some v ∧ x = PyId.int (i : Nat) ∧ f = some 0) ∨
+      (∃ j p, h.edges[j]? = some p ∧ x = PyId.int (h.nodes.length + j : Nat) ∧ f = some 1) := by
+  unfold toBipartiteGraph
+  simp only [List.mem_append, List.mem_map, Prod.mk.injEq, List.mem_zipIdx_iff_getElem?]
+  constructor
+  · rintro (⟨⟨v, i⟩, hv, rfl, rfl⟩ | ⟨⟨p, j⟩, hp, rfl, rfl⟩)
+    · exact Or.inl ⟨i, v, hv, rfl, rfl⟩
+    · exact Or.inr ⟨j, p, hp, rfl, rfl⟩
+  · rintro (⟨i, v, hv, rfl, rfl⟩ | ⟨j, p, hp, rfl, rfl⟩)
+    · exact Or.inl ⟨(v, i), hv, rfl, rfl⟩
+    · exact Or.inr ⟨(p, j), hp, rfl, rfl⟩
+
+theorem mem_nodeVerts_toBG (h : Net) (x : PyId) :
+    x ∈ nodeVerts (toBipartiteGraph h).G ↔ ∃ i v, h.nodes[i]? = some v ∧ x = PyId.int (i : Nat) := by
+  rw [mem_nodeVerts, mem_verts_toBG]
+  constructor
+  · rintro (⟨i, v, hv, rfl, _⟩ | ⟨j, p, hp, rfl, hf⟩)
+    · exact ⟨i, v, hv, rfl⟩
+    · simp at hf
+  · rintro ⟨i, v, hv, rfl⟩; exact Or.inl ⟨i, v, hv, rfl, rfl⟩
+
+theorem mem_edgeVerts_toBG (h : Net) (x : PyId) :
+    x ∈ edgeVerts (toBipartiteGraph h).G ↔ ∃ j p, h.edges[j]? = some p ∧ x = PyId.int (h.nodes.length + j : Nat) := by
+  rw [mem_edgeVerts, mem_verts_toBG]
+  constructor
+  · rintro (⟨i, v, hv, rfl, hf⟩ | ⟨j, p, hp, rfl, _⟩)
+    · simp at hf
+    · exact ⟨j, p, hp, rfl⟩
+  · rintro ⟨j, p, hp, rfl⟩; exact Or.inr ⟨j, p, hp, rfl, rfl⟩
+
+theorem mem_edges_toBG (h : Net) (x y : PyId) :
+    (x, y) ∈ (toBipartiteGraph h).G.edges ↔
+      ∃ i v j p, h.nodes[i]? = some v ∧ h.edges[j]? = some p ∧ v ∈ p.2 ∧
+        x = PyId.int (i : Nat) ∧ y = PyId.int (h.nodes.length + j : Nat) := by
+  unfold toBipartiteGraph
+  simp only [List.mem_flatMap, List.mem_filterMap, List.mem_zipIdx_iff_getElem?]
+  constructor
+  · rintro ⟨⟨v, i⟩, hv, ⟨p, j⟩, hp, h1⟩
+    simp only at hv hp h1
+    split at h1
+    · rename_i hm
+      simp only [Option.some.injEq, Prod.mk.injEq] at h1
+      exact ⟨i, v, j, p, hv, hp, hm, h1.1.symm, h1.2.symm⟩
+    · simp at h1
+  · rintro ⟨i, v, j, p, hv, hp, hm, rfl, rfl⟩
+    exact ⟨(v, i), hv, (p, j), hp, by simp [hm]⟩
+
+theorem getElem?_lt {α : Type} {l : List α} {i : Nat} {a : α} (h : l[i]? = some a) : i < l.length := by
+  by_cases hi : i < l.length
+  · exact hi
+  · rw [List.getElem?_eq_none (by omega)] at h; simp at h
+
+theorem gwf_toBG (h : Net) : GWF (toBipartiteGraph h).G := by
+  constructor
+  · have : (toBipartiteGraph h).G.verts.map (·.1) =
+        h.nodes.zipIdx.map (fun vi => PyId.int (vi.2 : Nat)) ++
+        h.edges.zipIdx.map (fun pj => PyId.int (h.nodes.length + pj.2 : Nat)) := by
+      unfold toBipartiteGraph; simp [List.map_map, Function.comp_def]
+    rw [this, List.nodup_append]
+    refine ⟨nodup_zipIdx_map _ _ int_inj, nodup_zipIdx_map _ (fun j => PyId.int (h.nodes.length + j : Nat)) ?_, ?_⟩
+    · intro a b hab; have := int_inj _ _ hab; omega
+    · intro a ha b hb hab
+      simp only [List.mem_map, List.mem_zipIdx_iff_getElem?] at ha hb
+      obtain ⟨⟨v, i⟩, hv, rfl⟩ := ha
+      obtain ⟨⟨p, j⟩, hp, rfl⟩ := hb
+      have := int_inj _ _ hab
+      have := getElem?_lt hv
+      simp only at *
+      omega
+  · rintro ⟨x, y⟩ hp
+    rw [mem_edges_toBG] at hp
+    obtain ⟨i, v, j, p, hv, hp, _, rfl, rfl⟩ := hp
+    simp only [List.mem_map]
+    exact ⟨⟨_, (mem_verts_toBG h _ _).mpr (Or.inl ⟨i, v, hv, rfl, rfl⟩), rfl⟩,
+           ⟨_, (mem_verts_toBG h _ _).mpr (Or.inr ⟨j, p, hp, rfl, rfl⟩), rfl⟩⟩
+
+theorem ok_toBG (h : Net) : flagsOk (toBipartiteGraph h).G = true ∧ isBipartite (toBipartiteGraph h).G = true := by
+  constructor
+  · rw [flagsOk_iff]
+    rintro ⟨x, f⟩ hp
+    rw [mem_verts_toBG] at hp
+    rcases hp with ⟨_, _, _, _, rfl⟩ | ⟨_, _, _, _, rfl⟩
+    · exact Or.inl rfl
+    · exact Or.inr rfl
+  · rw [isBipartite_iff]
+    rintro ⟨x, y⟩ hp
+    rw [mem_edges_toBG] at hp
+    obtain ⟨i, v, j, p, hv, hp, _, rfl, rfl⟩ := hp
+    simp only [mem_nodeVerts_toBG, mem_edgeVerts_toBG]
+    exact ⟨fun _ => ⟨j, p, hp, rfl⟩, fun _ => ⟨i, v, hv, rfl⟩⟩
+
+/-- two entries of a list with distinct keys and the same key are the same entry -/
+theorem eq_of_key_eq {l : List (PyId × List PyId)} (hn : (l.map (·.1)).Nodup) {p q : PyId × List PyId}
+    (hp : p ∈ l) (hq : q ∈ l) (h : p.1 = q.1) : p = q := by
+  induction l with
+  | nil => simp at hp
+  | cons a t ih =>
+    simp only [List.map_cons, List.nodup_cons, List.mem_map, not_exists, not_and] at hn
+    simp only [List.mem_cons] at hp hq
+    rcases hp with hp | hp <;> rcases hq with hq | hq
+    · rw [hp, hq]
+    · exact absurd (by rw [← hp, h]) (hn.1 _ hq)
+    · exact absurd (by rw [← hq, ← h]) (hn.1 _ hp)
+    · exact ih hn.2 hp hq
+
+theorem mem_itn_toBG (h : Net) (x n : PyId) :
+    (x, n) ∈ (toBipartiteGraph h).itn ↔ ∃ i, h.nodes[i]? = some n ∧ x = PyId.int (i : Nat) := by
+  unfold toBipartiteGraph
+  simp only [List.mem_map, Prod.mk.injEq, List.mem_zipIdx_iff_getElem?]
+  constructor
+  · rintro ⟨⟨v, i⟩, hv, rfl, rfl⟩; exact ⟨i, hv, rfl⟩
+  · rintro ⟨i, hv, rfl⟩; exact ⟨(n, i), hv, rfl, rfl⟩
+
+theorem mem_ite_toBG (h : Net) (y e : PyId) :
+    (y, e) ∈ (toBipartiteGraph h).ite ↔ ∃ j p, h.edges[j]? = some p ∧ y = PyId.int (h.nodes.length + j : Nat) ∧ e = p.1 := by
+  unfold toBipartiteGraph
+  simp only [List.mem_map, Prod.mk.injEq, List.mem_zipIdx_iff_getElem?]
+  constructor
+  · rintro ⟨⟨p, j⟩, hp, rfl, rfl⟩; exact ⟨j, p, hp, rfl, rfl⟩
+  · rintro ⟨j, p, hp, rfl, rfl⟩; exact ⟨(p, j), hp, rfl, rfl⟩
+
+/-! ### attribute dicts -/
+
+/-- an attribute dict has distinct keys -/
+def AttrsWF (av : Attrs) : Prop := (av.map (·.1)).Nodup
+
+theorem attrs_set_fresh (a : Attrs) (k : String) (v : Val) (hk : k ∉ a.map (·.1)) : Attrs.set a k v = a ++ [(k, v)] := by
+  unfold Attrs.set
+  have : a.any (fun p => p.1 = k) = false := by
+    rw [List.any_eq_false]
+    intro p hp h
+    simp only [decide_eq_true_eq] at h
+    exact hk (by rw [List.mem_map]; exact ⟨p, hp, h⟩)
+  simp [this]
+
+theorem attrs_update_append (b a : Attrs) (h : (a.map (·.1) ++ b.map (·.1)).Nodup) : Attrs.update a b = a ++ b := by
+  unfold Attrs.update
+  induction b generalizing a with
+  | nil => simp
+  | cons p t ih =>
+    have hp : p.1 ∉ a.map (·.1) := by
+      intro hp
+      rw [List.nodup_append] at h
+      exact h.2.2 p.1 hp p.1 (by simp) rfl
+    simp only [List.foldl_cons]
+    rw [attrs_set_fresh a p.1 p.2 hp, ih]
+    · simp
+    · simpa using h
+
+theorem attrs_update_nil {b : Attrs} (h : AttrsWF b) : Attrs.update [] b = b := by
+  rw [attrs_update_append b [] (by simpa [AttrsWF] using h)]; simp
+
+theorem attrs_update_nil_right (a : Attrs) : Attrs.update a [] = a := rfl
+
+theorem foldl_ins_noop {α : Type} [DecidableEq α] (ms acc : List α) (h : ∀ x ∈ ms, x ∈ acc) :
+    ms.foldl (fun acc x => ins x acc) acc = acc := by
+  induction ms with
+  | nil => rfl
+  | cons a t ih =>
+    simp only [List.foldl_cons]
+    have : ins a acc = acc := by unfold ins; simp [h a (by simp)]
+    rw [this]; exact ih (fun x hx => h x (by simp [hx]))
+
+/-! ### folds over attributed networks -/
+
+theorem aAddNode_fresh (a : ANet) (n : PyId) (av : Attrs) (hn : n ∉ a.net.nodes) :
+    aAddNode a n av = { a with net := { nodes := a.net.nodes ++ [n], edges := a.net.edges },
+                               nattr := upd a.nattr n (Attrs.update [] av) } := by
+  unfold aAddNode addNode ins; simp [hn]
+
+theorem nodeFold_spec (ns : List PyId) (f : PyId → Attrs) (a0 : ANet) (hn : (a0.net.nodes ++ ns).Nodup) :
+    (ns.foldl (fun a n => aAddNode a n (f n)) a0).net.nodes = a0.net.nodes ++ ns ∧
+    (ns.foldl (fun a n => aAddNode a n (f n)) a0).net.edges = a0.net.edges ∧
+    (ns.foldl (fun a n => aAddNode a n (f n)) a0).eattr = a0.eattr ∧
+    (ns.foldl (fun a n => aAddNode a n (f n)) a0).gattr = a0.gattr ∧
+    (ns.foldl (fun a n => aAddNode a n (f n)) a0).cls = a0.cls ∧
+    (∀ n ∈ ns, (ns.foldl (fun a n => aAddNode a n (f n)) a0).nattr n = Attrs.update [] (f n)) ∧
+    (∀ n, n ∉ ns → (ns.foldl (fun a n => aAddNode a n (f n)) a0).nattr n = a0.nattr n) := by
+  induction ns generalizing a0 with
+  | nil => simp
+  | cons m t ih =>
+    have hm : m ∉ a0.net.nodes := by
+      intro hm
+      rw [List.nodup_append] at hn
+      exact hn.2.2 m hm m (by simp) rfl
+    have hmt : m ∉ t := by
+      rw [List.nodup_append] at hn
+      have := hn.2.1
+      simp only [List.nodup_cons] at this
+      exact this.1
+    simp only [List.foldl_cons]
+    rw [aAddNode_fresh a0 m (f m) hm]
+    obtain ⟨i1, i2, i3, i4, i5, i6, i7⟩ := ih
+      { a0 with net := { nodes := a0.net.nodes ++ [m], edges := a0.net.edges },
+                nattr := upd a0.nattr m (Attrs.update [] (f m)) } (by simpa using hn)
+    refine ⟨by rw [i1]; simp, i2, i3, i4, i5, ?_, ?_⟩
+    · intro n hn'
+      simp only [List.mem_cons] at hn'
+      rcases hn' with rfl | hn'
+      · rw [i7 n hmt]; simp
+      · exact i6 n hn'
+    · intro n hn'
+      simp only [List.mem_cons, not_or] at hn'
+      rw [i7 n hn'.2]; simp [hn'.1]
+
+theorem aAddEdge_fresh (a : ANet) (e : PyId) (ms : List PyId) (av : Attrs) (he : e ∉ a.net.edgeIds)
+    (hm : ∀ x ∈ ms, x ∈ a.net.nodes) :
+    aAddEdge a e ms av = { a with net := { nodes := a.net.nodes, edges := a.net.edges ++ [(e, dedup ms)] },
+                                  eattr := upd a.eattr e (Attrs.update [] av) } := by
+  unfold aAddEdge; simp only [he, if_false]
+  rw [addEdge_fresh _ _ _ he, foldl_ins_noop ms _ hm]
+
+theorem edgeFold_spec {β : Type} (es : List β) (k : β → PyId) (m : β → List PyId) (g : β → Attrs) (a0 : ANet)
+    (hn : (a0.net.edgeIds ++ es.map k).Nodup) (hm : ∀ p ∈ es, ∀ x ∈ m p, x ∈ a0.net.nodes) :
+    (es.foldl (fun a p => aAddEdge a (k p) (m p) (g p)) a0).net.nodes = a0.net.nodes ∧
+    (es.foldl (fun a p => aAddEdge a (k p) (m p) (g p)) a0).net.edges = a0.net.edges ++ es.map (fun p => (k p, dedup (m p))) ∧
+    (es.foldl (fun a p => aAddEdge a (k p) (m p) (g p)) a0).nattr = a0.nattr ∧
+    (es.foldl (fun a p => aAddEdge a (k p) (m p) (g p)) a0).gattr = a0.gattr ∧
+    (es.foldl (fun a p => aAddEdge a (k p) (m p) (g p)) a0).cls = a0.cls ∧
+    (∀ p ∈ es, (es.foldl (fun a p => aAddEdge a (k p) (m p) (g p)) a0).eattr (k p) = Attrs.update [] (g p)) ∧
+    (∀ e, e ∉ es.map k → (es.foldl (fun a p => aAddEdge a (k p) (m p) (g p)) a0).eattr e = a0.eattr e) := by
+  induction es generalizing a0 with
+  | nil => simp
+  | cons q t ih =>
+    have hq : k q ∉ a0.net.edgeIds := by
+      intro hq
+      rw [List.nodup_append] at hn
+      exact hn.2.2 _ hq (k q) (by simp) rfl
+    have hqt : k q ∉ t.map k := by
+      rw [List.nodup_append] at hn
+      have := hn.2.1
+      simp only [List.map_cons, List.nodup_cons] at this
+      exact this.1
+    simp only [List.foldl_cons]
+    rw [aAddEdge_fresh a0 (k q) (m q) (g q) hq (hm q (by simp))]
+    obtain ⟨i1, i2, i3, i4, i5, i6, i7⟩ := ih
+      { a0 with net := { nodes := a0.net.nodes, edges := a0.net.edges ++ [(k q, dedup (m q))] },
+                eattr := upd a0.eattr (k q) (Attrs.update [] (g q)) }
+      (by simpa [Net.edgeIds] using hn) (fun p hp => hm p (by simp [hp]))
+    refine ⟨i1, by rw [i2]; simp, i3, i4, i5, ?_, ?_⟩
+    · intro p hp
+      simp only [List.mem_cons] at hp
+      rcases hp with rfl | hp
+      · rw [i7 _ hqt]; simp
+      · exact i6 p hp
+    · intro e he
+      simp only [List.map_cons, List.mem_cons, not_or] at he
+      rw [i7 e he.2]; simp [he.1]
+
+theorem setEdgeAttrFold_spec (es : List PyId) (f : PyId → Attrs) (a0 : ANet)
+    (hn : es.Nodup) (hp : ∀ e ∈ es, e ∈ a0.net.edgeIds) :
+    (es.foldl (fun a e => aSetEdgeAttr a e (f e)) a0).net = a0.net ∧
+    (es.foldl (fun a e => aSetEdgeAttr a e (f e)) a0).nattr = a0.nattr ∧
+    (es.foldl (fun a e => aSetEdgeAttr a e (f e)) a0).gattr = a0.gattr ∧
+    (es.foldl (fun a e => aSetEdgeAttr a e (f e)) a0).cls = a0.cls ∧
+    (∀ e ∈ es, (es.foldl (fun a e => aSetEdgeAttr a e (f e)) a0).eattr e = Attrs.update (a0.eattr e) (f e)) ∧
+    (∀ e, e ∉ es → (es.foldl (fun a e => aSetEdgeAttr a e (f e)) a0).eattr e = a0.eattr e) := by
+  induction es generalizing a0 with
+  | nil => simp
+  | cons q t ih =>
+    simp only [List.nodup_cons] at hn
+    have hq : q ∈ a0.net.edgeIds := hp q (by simp)
+    simp only [List.foldl_cons]
+    have h1 : aSetEdgeAttr a0 q (f q) = { a0 with eattr := upd a0.eattr q (Attrs.update (a0.eattr q) (f q)) } := by
+      unfold aSetEdgeAttr; simp [hq]
+    rw [h1]
+    obtain ⟨i1, i2, i3, i4, i5, i6⟩ := ih { a0 with eattr := upd a0.eattr q (Attrs.update (a0.eattr q) (f q)) }
+      hn.2 (fun e he => hp e (by simp [he]))
+    refine ⟨i1, i2, i3, i4, ?_, ?_⟩
+    · intro e he
+      simp only [List.mem_cons] at he
+      rcases he with rfl | he
+      · rw [i6 _ hn.1]; simp
+      · rw [i5 e he]
+        have : e ≠ q := fun h => hn.1 (h ▸ he)
+        simp [this]
+    · intro e he
+      simp only [List.mem_cons, not_or] at he
+      rw [i6 e he.2]; simp [he.1]
+
+theorem mapO_eq {α β : Type} (f : α → Option β) (g : α → β) (l : List α) (h : ∀ x ∈ l, f x = some (g x)) :
+    mapO f l = some (l.map g) := by
+  induction l with
+  | nil => rfl
+  | cons a t ih =>
+    simp only [mapO, h a (by simp), ih (fun x hx => h x (by simp [hx])), List.map_cons]
+
+theorem mapE_eq {α β : Type} (f : α → Except Err β) (g : α → β) (l : List α) (h : ∀ x ∈ l, f x = .ok (g x)) :
+    mapE f l = .ok (l.map g) := by
+  induction l with
+  | nil => rfl
+  | cons a t ih =>
+    simp only [mapE, h a (by simp), ih (fun x hx => h x (by simp [hx])), List.map_cons]
+
+theorem sortIds_perm {l l' : List PyId} (h : sortIds l = some l') : l'.Perm l := by
+  unfold sortIds at h
+  split at h
+  · simp only [Option.some.injEq] at h; subst h; exact List.Perm.refl _
+  · split at h
+    · simp only [Option.some.injEq] at h; subst h; exact List.mergeSort_perm _ _
+    · split at h
+      · simp only [Option.some.injEq] at h; subst h; exact List.mergeSort_perm _ _
+      · simp at h
+
+theorem mapE_map_eq {α β γ : Type} (f : β → Except Err γ) (c : α → β) (g : α → γ) (l : List α)
+    (h : ∀ x ∈ l, f (c x) = .ok (g x)) : mapE f (l.map c) = .ok (l.map g) := by
+  induction l with
+  | nil => rfl
+  | cons a t ih =>
+    simp only [List.map_cons, mapE, h a (by simp), ih (fun x hx => h x (by simp [hx]))]
+
+theorem nodup_map_of_leftInv {l : List PyId} (c : PyId → String) (u : String → Except Err PyId)
+    (hu : ∀ x ∈ l, u (c x) = .ok x) (hn : l.Nodup) : (l.map c).Nodup := by
+  induction l with
+  | nil => simp
+  | cons a t ih =>
+    simp only [List.nodup_cons] at hn
+    simp only [List.map_cons, List.nodup_cons, List.mem_map, not_exists, not_and]
+    refine ⟨fun b hb hcb => ?_, ih (fun x hx => hu x (by simp [hx])) hn.2⟩
+    have h1 := hu a (by simp)
+    have h2 := hu b (by simp [hb])
+    rw [← hcb, h2] at h1
+    simp only [Except.ok.injEq] at h1
+    exact hn.1 (h1 ▸ hb)
+
+/-- attribute dicts of a network have distinct keys (they are Python dicts) -/
+structure AWF (a : ANet) : Prop where
+  net : a.net.WF
+  g : AttrsWF a.gattr
+  n : ∀ n ∈ a.net.nodes, AttrsWF (a.nattr n)
+  e : ∀ e ∈ a.net.edgeIds, AttrsWF (a.eattr e)
+
+/-! ### HIF -/
+
+theorem addNode_of_mem (h : Net) (n : PyId) (hn : n ∈ h.nodes) : addNode h n = h := by
+  unfold addNode ins; simp [hn]
+
+theorem aAddNode_of_nil (a : ANet) (n : PyId) (av : Attrs) (h0 : a.nattr n = []) :
+    aAddNode a n av = { a with net := addNode a.net n, nattr := upd a.nattr n (Attrs.update [] av) } := by
+  unfold aAddNode
+  split
+  · rename_i hn; rw [addNode_of_mem _ _ hn, h0]
+  · rfl
+
+/-- the node-record loop of `from_hif_dict` -/
+theorem nodeRecFold_spec (ns : List PyId) (f : PyId → Attrs) (a0 : ANet) (hk : ns.Nodup)
+    (h0 : ∀ n ∈ ns, a0.nattr n = []) :
+    (∀ n, n ∈ (ns.foldl (fun a n => aAddNode a n (f n)) a0).net.nodes ↔ n ∈ a0.net.nodes ∨ n ∈ ns) ∧
+    (ns.foldl (fun a n => aAddNode a n (f n)) a0).net.edges = a0.net.edges ∧
+    (ns.foldl (fun a n => aAddNode a n (f n)) a0).eattr = a0.eattr ∧
+    (ns.foldl (fun a n => aAddNode a n (f n)) a0).gattr = a0.gattr ∧
+    (ns.foldl (fun a n => aAddNode a n (f n)) a0).cls = a0.cls ∧
+    (∀ n ∈ ns, (ns.foldl (fun a n => aAddNode a n (f n)) a0).nattr n = Attrs.update [] (f n)) ∧
+    (∀ n, n ∉ ns → (ns.foldl (fun a n => aAddNode a n (f n)) a0).nattr n = a0.nattr n) ∧
+    (a0.net.nodes.Nodup → (ns.foldl (fun a n => aAddNode a n (f n)) a0).net.nodes.Nodup) := by
+  induction ns generalizing a0 with
+  | nil => simp
+  | cons m t ih =>
+    simp only [List.nodup_cons] at hk
+    simp only [List.foldl_cons]
+    rw [aAddNode_of_nil a0 m (f m) (h0 m (by simp))]
+    obtain ⟨i1, i2, i3, i4, i5, i6, i7, i8⟩ := ih
+      { a0 with net := addNode a0.net m, nattr := upd a0.nattr m (Attrs.update [] (f m)) } hk.2
+      (fun n hn => by
+        have : n ≠ m := fun h => hk.1 (h ▸ hn)
+        simp only [upd_apply, this, if_false]; exact h0 n (by simp [hn]))
+    refine ⟨?_, i2, i3, i4, i5, ?_, ?_, ?_⟩
+    · intro n; rw [i1 n]; simp only [addNode, mem_ins, List.mem_cons]
+      constructor
+      · rintro ((h | h) | h)
+        · exact Or.inr (Or.inl h)
+        · exact Or.inl h
+        · exact Or.inr (Or.inr h)
+      · rintro (h | h | h)
+        · exact Or.inl (Or.inr h)
+        · exact Or.inl (Or.inl h)
+        · exact Or.inr h
+    · intro n hn
+      simp only [List.mem_cons] at hn
+      rcases hn with rfl | hn
+      · rw [i7 n hk.1]; simp
+      · exact i6 n hn
+    · intro n hn
+      simp only [List.mem_cons, not_or] at hn
+      rw [i7 n hn.2]; simp [hn.1]
+    · intro hnd; exact i8 (by simp only [addNode]; exact nodup_ins hnd)
+
+/-- one step of the edge-record loop of `from_hif_dict` -/
+def edgeRecStep (f : PyId → Attrs) (a : ANet) (e : PyId) : ANet :=
+  if e ∈ a.net.edgeIds then aSetEdgeAttr a e (f e) else aAddEdge a e [] (f e)
+
+theorem edgeRecStep_of_nil (f : PyId → Attrs) (a : ANet) (e : PyId) (h0 : a.eattr e = []) :
+    edgeRecStep f a e = { a with net := ensureEdge a.net e, eattr := upd a.eattr e (Attrs.update [] (f e)) } := by
+  unfold edgeRecStep
+  split
+  · rename_i he
+    unfold aSetEdgeAttr ensureEdge; simp [he, h0]
+  · rename_i he
+    unfold aAddEdge ensureEdge; simp only [he, if_false]
+    rw [addEdge_fresh _ _ _ he]
+    simp [dedup]
+
+theorem inc_ensureEdge (h : Net) (e n e' : PyId) : Inc (ensureEdge h e) n e' ↔ Inc h n e' := by
+  unfold ensureEdge Inc
+  split
+  · rfl
+  · simp only [List.mem_append, List.mem_singleton]
+    constructor
+    · rintro ⟨p, (hp | rfl), h1, h2⟩
+      · exact ⟨p, hp, h1, h2⟩
+      · simp at h2
+    · rintro ⟨p, hp, h1, h2⟩; exact ⟨p, Or.inl hp, h1, h2⟩
+
+theorem wf_ensureEdge {h : Net} (hw : h.WF) (e : PyId) : (ensureEdge h e).WF := by
+  obtain ⟨h1, h2, h3⟩ := hw
+  refine ⟨by simpa using h1, ?_, ?_⟩
+  · have := edgeIds_ensureEdge h e
+    unfold Net.edgeIds at this; rw [this]; exact nodup_ins h2
+  · intro p hp
+    rw [nodes_ensureEdge]
+    unfold ensureEdge at hp
+    split at hp
+    · exact h3 p hp
+    · simp only [List.mem_append, List.mem_singleton] at hp
+      rcases hp with hp | rfl
+      · exact h3 p hp
+      · simp
+
+theorem edgeRecFold_spec (es : List PyId) (f : PyId → Attrs) (a0 : ANet) (hk : es.Nodup)
+    (h0 : ∀ e ∈ es, a0.eattr e = []) :
+    (∀ e, e ∈ (es.foldl (edgeRecStep f) a0).net.edgeIds ↔ e ∈ a0.net.edgeIds ∨ e ∈ es) ∧
+    (es.foldl (edgeRecStep f) a0).net.nodes = a0.net.nodes ∧
+    (∀ n e, Inc (es.foldl (edgeRecStep f) a0).net n e ↔ Inc a0.net n e) ∧
+    (es.foldl (edgeRecStep f) a0).nattr = a0.nattr ∧
+    (es.foldl (edgeRecStep f) a0).gattr = a0.gattr ∧
+    (es.foldl (edgeRecStep f) a0).cls = a0.cls ∧
+    (∀ e ∈ es, (es.foldl (edgeRecStep f) a0).eattr e = Attrs.update [] (f e)) ∧
+    (∀ e, e ∉ es → (es.foldl (edgeRecStep f) a0).eattr e = a0.eattr e) ∧
+    (a0.net.WF → (es.foldl (edgeRecStep f) a0).net.WF) := by
+  induction es generalizing a0 with
+  | nil => simp
+  | cons m t ih =>
+    simp only [List.nodup_cons] at hk
+    simp only [List.foldl_cons]
+    rw [edgeRecStep_of_nil f a0 m (h0 m (by simp))]
+    obtain ⟨i1, i2, i3, i4, i5, i6, i7, i8, i9⟩ := ih
+      { a0 with net := ensureEdge a0.net m, eattr := upd a0.eattr m (Attrs.update [] (f m)) } hk.2
+      (fun e he => by
+        have : e ≠ m := fun h => hk.1 (h ▸ he)
+        simp only [upd_apply, this, if_false]; exact h0 e (by simp [he]))
+    refine ⟨?_, by rw [i2]; simp, ?_, i4, i5, i6, ?_, ?_, ?_⟩
+    · intro e; rw [i1 e]; simp only [edgeIds_ensureEdge, mem_ins, List.mem_cons]
+      constructor
+      · rintro ((h | h) | h)
+        · exact Or.inr (Or.inl h)
+        · exact Or.inl h
+        · exact Or.inr (Or.inr h)
+      · rintro (h | h | h)
+        · exact Or.inl (Or.inr h)
+        · exact Or.inl (Or.inl h)
+        · exact Or.inr h
+    · intro n e; rw [i3 n e]; exact inc_ensureEdge _ _ _ _
+    · intro e he
+      simp only [List.mem_cons] at he
+      rcases he with rfl | he
+      · rw [i8 e hk.1]; simp
+      · exact i7 e he
+    · intro e he
+      simp only [List.mem_cons, not_or] at he
+      rw [i8 e he.2]; simp [he.1]
+    · intro hwf; exact i9 (wf_ensureEdge hwf m)
+
+theorem aLinkFold_eq (rows : List (PyId × PyId)) (a0 : ANet) :
+    rows.foldl (fun a r => aLink a r.2 r.1) a0 = { a0 with net := linkAll rows a0.net } := by
+  induction rows generalizing a0 with
+  | nil => rfl
+  | cons r t ih => simp only [List.foldl_cons]; rw [ih]; rfl
+
+theorem recOf_getD (av : Attrs) : (recOf av).getD [] = av := by
+  unfold recOf; split <;> simp_all
+
+theorem hifNodeStep_eq (a : ANet) (n : PyId) (av : Attrs) :
+    (if n ∈ a.net.nodes then aSetNodeAttr a n av else aAddNode a n av) = aAddNode a n av := by
+  unfold aSetNodeAttr aAddNode; split <;> rfl
+
+theorem isolated_iff (h : Net) (n : PyId) : isolated h n = true ↔ ¬ ∃ e, Inc h n e := by
+  unfold isolated Inc
+  simp only [List.all_eq_true, decide_eq_true_eq]
+  constructor
+  · rintro h1 ⟨e, p, hp, _, hn⟩; exact h1 p hp hn
+  · intro h1 p hp hn; exact h1 ⟨p.1, p, hp, rfl, hn⟩
+
+
+theorem foldl_preserve {α β γ : Type} (f : α → β → α) (proj : α → γ) (h : ∀ a b, proj (f a b) = proj a)
+    (l : List β) (a : α) : proj (l.foldl f a) = proj a := by
+  induction l generalizing a with
+  | nil => rfl
+  | cons b t ih => simp only [List.foldl_cons]; rw [ih, h]
+
+theorem cls_aAddNode (a : ANet) (n : PyId) (av : Attrs) : (aAddNode a n av).cls = a.cls := by
+  unfold aAddNode; split <;> rfl
+theorem cls_aAddEdge (a : ANet) (e : PyId) (ms : List PyId) (av : Attrs) : (aAddEdge a e ms av).cls = a.cls := by
+  unfold aAddEdge; split <;> rfl
+theorem cls_scStep (s : SCState) (e : PyId) (ms : List PyId) (av : Attrs) : (scStep s e ms av).a.cls = s.a.cls := by
+  unfold scStep; split
+  · rfl
+  · split
+    · rfl
+    · exact cls_aAddEdge _ _ _ _
+theorem cls_addFace (s : ANet × Nat) (f : List PyId) : (addFace s f).1.cls = s.1.cls := by
+  unfold addFace; split <;> rfl
+
+theorem cls_toSimplicialComplex (src : ANet) : (toSimplicialComplex src).cls = .sc := by
+  unfold toSimplicialComplex
+  simp only
+  rw [foldl_preserve addFace (fun s => s.1.cls) cls_addFace]
+  simp only
+  rw [foldl_preserve (fun s (p : PyId × List PyId) => scStep s p.1 p.2 (src.eattr p.1)) (fun s => s.a.cls)
+    (fun s p => cls_scStep s p.1 p.2 _)]
+  simp only
+  rw [foldl_preserve (fun a n => aAddNode a n (src.nattr n)) (fun a => a.cls) (fun a n => cls_aAddNode a n _)]
+  rfl
+
+theorem foldl_inv {α β : Type} (P : α → Prop) (f : α → β → α) (h : ∀ a b, P a → P (f a b))
+    (l : List β) (a : α) (ha : P a) : P (l.foldl f a) := by
+  induction l generalizing a with
+  | nil => exact ha
+  | cons b t ih => exact ih _ (h a b ha)
+
+theorem cls_fromHifU (d : Hif) : (fromHifU d).cls = .hg := by
+  unfold fromHifU
+  simp only
+  refine foldl_inv (fun (a : ANet) => a.cls = Cls.hg) _ (fun a r ha => ?_) _ _ ?_
+  · split
+    · unfold aSetEdgeAttr; split <;> exact ha
+    · rw [cls_aAddEdge]; exact ha
+  refine foldl_inv (fun (a : ANet) => a.cls = Cls.hg) _ (fun a r ha => ?_) _ _ ?_
+  · split
+    · unfold aSetNodeAttr; split <;> exact ha
+    · rw [cls_aAddNode]; exact ha
+  refine foldl_inv (fun (a : ANet) => a.cls = Cls.hg) _ (fun a r ha => ?_) _ _ ?_
+  · exact ha
+  · rfl
+
+/-! ### class-to-class -/
+
+theorem mem_union (t hd : List PyId) (x : PyId) : x ∈ union t hd ↔ x ∈ t ∨ x ∈ hd := by
+  unfold union; exact foldl_ins_mem hd t x
+
+theorem nodup_union {t : List PyId} (hd : List PyId) (h : t.Nodup) : (union t hd).Nodup := by
+  unfold union; exact foldl_ins_nodup hd t h
+
+/-- attribute dicts of a directed network have distinct keys -/
+structure ADWF (a : ADiNet) : Prop where
+  net : DWF a.net
+  g : AttrsWF a.gattr
+  n : ∀ n ∈ a.net.nodes, AttrsWF (a.nattr n)
+  e : ∀ e ∈ dEdgeIds a.net, AttrsWF (a.eattr e)
+
+theorem awf_flat {a : ADiNet} (hw : ADWF a) (c : Cls) : AWF (a.flat c) := by
+  obtain ⟨⟨w1, w2, w3⟩, wg, wn, we⟩ := hw
+  refine ⟨⟨w1, ?_, ?_⟩, wg, wn, ?_⟩
+  · simp only [ADiNet.flat, dFlat, List.map_map]; exact w2
+  · intro p hp
+    simp only [ADiNet.flat, dFlat, List.mem_map] at hp
+    obtain ⟨q, hq, rfl⟩ := hp
+    obtain ⟨q1, q2, q3, q4⟩ := w3 q hq
+    refine ⟨nodup_union _ q1, fun n hn => ?_⟩
+    rw [mem_union] at hn
+    rcases hn with hn | hn
+    · exact q3 n hn
+    · exact q4 n hn
+  · intro e he
+    apply we
+    simpa [ADiNet.flat, dFlat, Net.edgeIds, dEdgeIds, List.map_map] using he
+
+theorem toHypergraph_spec (src : ANet) (hw : AWF src) :
+    (toHypergraph src).net = src.net ∧ (toHypergraph src).cls = .hg ∧ (toHypergraph src).gattr = src.gattr ∧
+    (∀ n ∈ src.net.nodes, (toHypergraph src).nattr n = src.nattr n) ∧
+    (∀ e ∈ src.net.edgeIds, (toHypergraph src).eattr e = src.eattr e) := by
+  obtain ⟨⟨w1, w2, w3⟩, wg, wn, we⟩ := hw
+  unfold toHypergraph
+  simp only
+  obtain ⟨n1, n2, n3, n4, n5, n6, _⟩ := nodeFold_spec src.net.nodes src.nattr (emptyANet .hg) (by simpa [emptyANet, emptyNet] using w1)
+  generalize (src.net.nodes.foldl (fun a n => aAddNode a n (src.nattr n)) (emptyANet .hg)) = a1 at n1 n2 n3 n4 n5 n6 ⊢
+  simp only [emptyANet, emptyNet, List.nil_append] at n1 n2 n3 n5
+  obtain ⟨m1, m2, m3, m4, m5, m6, _⟩ := edgeFold_spec src.net.edges (·.1) (·.2) (fun p => src.eattr p.1) a1
+    (by simp only [Net.edgeIds, n2, List.map_nil, List.nil_append]; exact w2)
+    (fun p hp x hx => by rw [n1]; exact (w3 p hp).2 x hx)
+  generalize (src.net.edges.foldl (fun a p => aAddEdge a p.1 p.2 (src.eattr p.1)) a1) = a2 at m1 m2 m3 m4 m5 m6 ⊢
+  rw [n2, List.nil_append] at m2
+  have hedges : a2.net.edges = src.net.edges := by
+    rw [m2]
+    conv => rhs; rw [← List.map_id src.net.edges]
+    apply List.map_congr_left
+    intro p hp
+    rw [dedup_of_nodup (w3 p hp).1]; rfl
+  refine ⟨?_, by rw [m5, n5], trivial, ?_, ?_⟩
+  · show a2.net = src.net
+    have e1 : a2.net.nodes = src.net.nodes := by rw [m1, n1]
+    cases hx : a2.net with
+    | mk ns es =>
+      cases hy : src.net with
+      | mk ns' es' =>
+        rw [hx] at e1 hedges; rw [hy] at e1 hedges
+        simp only at e1 hedges
+        rw [e1, hedges]
+  · intro n hn
+    show a2.nattr n = _
+    rw [m3, n6 n hn, attrs_update_nil (wn n hn)]
+  · intro e he
+    show a2.eattr e = _
+    unfold Net.edgeIds at he; rw [List.mem_map] at he
+    obtain ⟨p, hp, rfl⟩ := he
+    rw [m6 p hp, attrs_update_nil (we p.1 (by unfold Net.edgeIds; rw [List.mem_map]; exact ⟨p, hp, rfl⟩))]
+
+/-! ### simplicial-complex target -/
+
+theorem mem_subs {α : Type} (l f : List α) : f ∈ subs l ↔ f.Sublist l := by
+  induction l generalizing f with
+  | nil => simp [subs]
+  | cons a t ih =>
+    simp only [subs, List.mem_append, List.mem_map, ih]
+    constructor
+    · rintro (h | ⟨g, hg, rfl⟩)
+      · exact List.Sublist.cons a h
+      · exact List.Sublist.cons_cons a hg
+    · intro h
+      cases h with
+      | cons _ h => exact Or.inl h
+      | cons_cons _ h => exact Or.inr ⟨_, h, rfl⟩
+
+theorem mem_subfaces (ms f : List PyId) : f ∈ subfaces ms ↔ f.Sublist ms ∧ 2 ≤ f.length ∧ f.length < ms.length := by
+  unfold subfaces; simp [mem_subs]
+
+theorem sameSet_iff (x y : List PyId) : sameSet x y = true ↔ ∀ z, z ∈ x ↔ z ∈ y := by
+  unfold sameSet
+  simp only [Bool.and_eq_true, List.all_eq_true, decide_eq_true_eq]
+  constructor
+  · rintro ⟨h1, h2⟩ z; exact ⟨h1 z, h2 z⟩
+  · intro h; exact ⟨fun z hz => (h z).mp hz, fun z hz => (h z).mpr hz⟩
+
+theorem hasSimplex_iff (es : List (PyId × List PyId)) (ms : List PyId) :
+    hasSimplex es ms = true ↔ ∃ q ∈ es, ∀ z, z ∈ q.2 ↔ z ∈ ms := by
+  unfold hasSimplex; simp [sameSet_iff]
+
+theorem hasSimplex_mono {es es' : List (PyId × List PyId)} (h : ∀ q ∈ es, q ∈ es') {ms : List PyId}
+    (hs : hasSimplex es ms = true) : hasSimplex es' ms = true := by
+  rw [hasSimplex_iff] at hs ⊢
+  obtain ⟨q, hq, h1⟩ := hs
+  exact ⟨q, h q hq, h1⟩
+
+/-- all non-negative integer IDs in use are below the counter -/
+def Fresh (es : List (PyId × List PyId)) (uid : Nat) : Prop := ∀ i : Nat, PyId.int (i : Nat) ∈ es.map (·.1) → i < uid
+
+theorem fresh_bump {es : List (PyId × List PyId)} {uid : Nat} (h : Fresh es uid) (e : PyId) (ms : List PyId) :
+    Fresh (es ++ [(e, ms)]) (bump uid e) := by
+  intro i hi
+  simp only [List.map_append, List.map_cons, List.map_nil, List.mem_append, List.mem_singleton] at hi
+  have hmono : uid ≤ bump uid e := by
+    unfold bump; split
+    · split <;> omega
+    · exact Nat.le_refl _
+  rcases hi with hi | hi
+  · exact Nat.lt_of_lt_of_le (h i hi) hmono
+  · subst hi
+    simp only [bump]
+    split <;> omega
+
+theorem hasSimplex_self (es : List (PyId × List PyId)) (q : PyId × List PyId) (hq : q ∈ es) : hasSimplex es q.2 = true := by
+  rw [hasSimplex_iff]; exact ⟨q, hq, fun _ => Iff.rfl⟩
+
+theorem addFace_skip (s : ANet × Nat) (f : List PyId) (h : f = [] ∨ hasSimplex s.1.net.edges f = true) : addFace s f = s := by
+  unfold addFace; simp [h]
+
+theorem addFace_add (a : ANet) (uid : Nat) (f : List PyId) (h1 : f ≠ []) (h2 : hasSimplex a.net.edges f = false)
+    (hf : Fresh a.net.edges uid) (hn : ∀ x ∈ f, x ∈ a.net.nodes) (hd : f.Nodup) :
+    addFace (a, uid) f = ({ a with net := { nodes := a.net.nodes, edges := a.net.edges ++ [(PyId.int (uid : Nat), f)] },
+                                   eattr := upd a.eattr (PyId.int (uid : Nat)) [] }, uid + 1) := by
+  have hid : PyId.int (uid : Nat) ∉ a.net.edgeIds := fun h => Nat.lt_irrefl _ (hf uid h)
+  unfold addFace
+  simp only [h1, h2, false_or, Bool.false_eq_true, if_false]
+  rw [addEdge_fresh _ _ _ hid, foldl_ins_noop f _ hn, dedup_of_nodup hd]
+
+theorem faceFold_spec (faces : List (List PyId)) (a : ANet) (uid : Nat)
+    (hf : Fresh a.net.edges uid) (hn : ∀ f ∈ faces, ∀ x ∈ f, x ∈ a.net.nodes) (hd : ∀ f ∈ faces, f.Nodup) :
+    (∀ q ∈ a.net.edges, q ∈ (faces.foldl addFace (a, uid)).1.net.edges) ∧
+    (∀ f ∈ faces, f ≠ [] → hasSimplex (faces.foldl addFace (a, uid)).1.net.edges f = true) ∧
+    (∀ q ∈ (faces.foldl addFace (a, uid)).1.net.edges, q ∈ a.net.edges ∨
+        (q.2 ∈ faces ∧ (faces.foldl addFace (a, uid)).1.eattr q.1 = [] ∧ q.1 ∉ a.net.edgeIds)) ∧
+    (faces.foldl addFace (a, uid)).1.net.nodes = a.net.nodes ∧
+    (faces.foldl addFace (a, uid)).1.nattr = a.nattr ∧
+    (faces.foldl addFace (a, uid)).1.gattr = a.gattr ∧
+    (∀ e ∈ a.net.edgeIds, (faces.foldl addFace (a, uid)).1.eattr e = a.eattr e) := by
+  induction faces generalizing a uid with
+  | nil => simp
+  | cons f t ih =>
+    simp only [List.foldl_cons]
+    by_cases hskip : f = [] ∨ hasSimplex a.net.edges f = true
+    · rw [addFace_skip (a, uid) f hskip]
+      obtain ⟨i1, i2, i3, i4, i5, i6, i7⟩ := ih a uid hf (fun g hg => hn g (by simp [hg])) (fun g hg => hd g (by simp [hg]))
+      refine ⟨i1, ?_, ?_, i4, i5, i6, i7⟩
+      · intro g hg hne
+        simp only [List.mem_cons] at hg
+        rcases hg with rfl | hg
+        · rcases hskip with h | h
+          · exact absurd h hne
+          · exact hasSimplex_mono i1 h
+        · exact i2 g hg hne
+      · intro q hq
+        rcases i3 q hq with h | ⟨h1, h2, h3⟩
+        · exact Or.inl h
+        · exact Or.inr ⟨by simp [h1], h2, h3⟩
+    · simp only [not_or, Bool.not_eq_true] at hskip
+      rw [addFace_add a uid f hskip.1 hskip.2 hf (hn f (by simp)) (hd f (by simp))]
+      have hf' : Fresh (a.net.edges ++ [(PyId.int (uid : Nat), f)]) (uid + 1) := by
+        intro i hi
+        simp only [List.map_append, List.map_cons, List.map_nil, List.mem_append, List.mem_singleton] at hi
+        rcases hi with hi | hi
+        · exact Nat.lt_succ_of_lt (hf i hi)
+        · have := int_inj _ _ hi; omega
+      obtain ⟨i1, i2, i3, i4, i5, i6, i7⟩ := ih
+        { a with net := { nodes := a.net.nodes, edges := a.net.edges ++ [(PyId.int (uid : Nat), f)] },
+                 eattr := upd a.eattr (PyId.int (uid : Nat)) [] } (uid + 1) hf'
+        (fun g hg => hn g (by simp [hg])) (fun g hg => hd g (by simp [hg]))
+      have hid : PyId.int (uid : Nat) ∉ a.net.edgeIds := fun h => Nat.lt_irrefl _ (hf uid h)
+      refine ⟨fun q hq => i1 q (by simp [hq]), ?_, ?_, i4, i5, i6, ?_⟩
+      · intro g hg hne
+        simp only [List.mem_cons] at hg
+        rcases hg with rfl | hg
+        · exact hasSimplex_mono i1 (hasSimplex_self _ (PyId.int (uid : Nat), g) (by simp))
+        · exact i2 g hg hne
+      · intro q hq
+        rcases i3 q hq with h | ⟨h1, h2, h3⟩
+        · simp only [List.mem_append, List.mem_singleton] at h
+          rcases h with h | rfl
+          · exact Or.inl h
+          · right
+            refine ⟨by simp, ?_, hid⟩
+            rw [i7 _ (by simp [Net.edgeIds])]; simp
+        · right
+          refine ⟨by simp [h1], h2, ?_⟩
+          intro hq1; apply h3
+          simp only [Net.edgeIds, List.map_append, List.mem_append] at hq1 ⊢
+          exact Or.inl hq1
+      · intro e he
+        rw [i7 e (by simp only [Net.edgeIds, List.map_append, List.mem_append] at he ⊢; exact Or.inl he)]
+        have : e ≠ PyId.int (uid : Nat) := fun h => hid (h ▸ he)
+        simp [this]
+
+theorem scStep_skip (s : SCState) (e : PyId) (ms : List PyId) (av : Attrs)
+    (h : ms = [] ∨ hasSimplex s.a.net.edges ms = true) : scStep s e ms av = s := by
+  unfold scStep; simp [h]
+
+theorem scStep_add (s : SCState) (e : PyId) (ms : List PyId) (av : Attrs)
+    (h1 : ms ≠ []) (h2 : hasSimplex s.a.net.edges ms = false) (h3 : e ∉ s.a.net.edgeIds)
+    (hn : ∀ x ∈ ms, x ∈ s.a.net.nodes) (hd : ms.Nodup) :
+    scStep s e ms av =
+      { a := { s.a with net := { nodes := s.a.net.nodes, edges := s.a.net.edges ++ [(e, ms)] },
+                        eattr := upd s.a.eattr e (Attrs.update [] av) },
+        uid := bump s.uid e, faces := s.faces ++ subfaces ms } := by
+  unfold scStep
+  simp only [h1, h2, false_or, Bool.false_eq_true, if_false, h3]
+  rw [aAddEdge_fresh _ _ _ _ h3 hn, dedup_of_nodup hd]
+
+theorem edgeStage_spec (es : List (PyId × List PyId)) (g : PyId → Attrs) (s : SCState)
+    (hk : (s.a.net.edgeIds ++ es.map (·.1)).Nodup)
+    (hm : ∀ p ∈ es, p.2.Nodup ∧ ∀ x ∈ p.2, x ∈ s.a.net.nodes) (hf : Fresh s.a.net.edges s.uid) :
+    (∀ q ∈ s.a.net.edges, q ∈ (es.foldl (fun s p => scStep s p.1 p.2 (g p.1)) s).a.net.edges) ∧
+    (∀ q ∈ (es.foldl (fun s p => scStep s p.1 p.2 (g p.1)) s).a.net.edges, q ∈ s.a.net.edges ∨
+        (q ∈ es ∧ (es.foldl (fun s p => scStep s p.1 p.2 (g p.1)) s).a.eattr q.1 = Attrs.update [] (g q.1))) ∧
+    (∀ p ∈ es, p.2 ≠ [] → hasSimplex (es.foldl (fun s p => scStep s p.1 p.2 (g p.1)) s).a.net.edges p.2 = true) ∧
+    (∀ f ∈ s.faces, f ∈ (es.foldl (fun s p => scStep s p.1 p.2 (g p.1)) s).faces) ∧
+    (∀ q ∈ (es.foldl (fun s p => scStep s p.1 p.2 (g p.1)) s).a.net.edges, q ∈ s.a.net.edges ∨
+        ∀ f ∈ subfaces q.2, f ∈ (es.foldl (fun s p => scStep s p.1 p.2 (g p.1)) s).faces) ∧
+    (∀ f ∈ (es.foldl (fun s p => scStep s p.1 p.2 (g p.1)) s).faces, f ∈ s.faces ∨
+        ∃ q ∈ (es.foldl (fun s p => scStep s p.1 p.2 (g p.1)) s).a.net.edges, f ∈ subfaces q.2) ∧
+    Fresh (es.foldl (fun s p => scStep s p.1 p.2 (g p.1)) s).a.net.edges (es.foldl (fun s p => scStep s p.1 p.2 (g p.1)) s).uid ∧
+    (es.foldl (fun s p => scStep s p.1 p.2 (g p.1)) s).a.net.nodes = s.a.net.nodes ∧
+    (es.foldl (fun s p => scStep s p.1 p.2 (g p.1)) s).a.nattr = s.a.nattr ∧
+    (es.foldl (fun s p => scStep s p.1 p.2 (g p.1)) s).a.gattr = s.a.gattr ∧
+    (∀ e ∈ s.a.net.edgeIds, (es.foldl (fun s p => scStep s p.1 p.2 (g p.1)) s).a.eattr e = s.a.eattr e) := by
+  induction es generalizing s with
+  | nil =>
+    simp only [List.foldl_nil, List.not_mem_nil, false_and, or_false, false_implies, implies_true, true_and, and_true]
+    exact ⟨fun q hq => hq, fun q hq => hq, fun f hf' => hf', fun q hq => Or.inl hq, fun f hf' => Or.inl hf', hf⟩
+  | cons p t ih =>
+    have hp : p.1 ∉ s.a.net.edgeIds := by
+      intro hp
+      rw [List.nodup_append] at hk
+      exact hk.2.2 _ hp p.1 (by simp) rfl
+    have hkt : (s.a.net.edgeIds ++ t.map (·.1)).Nodup := by
+      rw [List.nodup_append] at hk ⊢
+      refine ⟨hk.1, ?_, fun a ha b hb => hk.2.2 a ha b (by simp [hb])⟩
+      have := hk.2.1; simp only [List.map_cons, List.nodup_cons] at this; exact this.2
+    simp only [List.foldl_cons]
+    by_cases hskip : p.2 = [] ∨ hasSimplex s.a.net.edges p.2 = true
+    · rw [scStep_skip s p.1 p.2 _ hskip]
+      obtain ⟨i1, i2, i3, i4, i5, i6, i7, i8, i9, i10, i11⟩ := ih s hkt (fun q hq => hm q (by simp [hq])) hf
+      refine ⟨i1, ?_, ?_, i4, i5, i6, i7, i8, i9, i10, i11⟩
+      · intro q hq
+        rcases i2 q hq with h | ⟨h1, h2⟩
+        · exact Or.inl h
+        · exact Or.inr ⟨by simp [h1], h2⟩
+      · intro q hq hne
+        simp only [List.mem_cons] at hq
+        rcases hq with rfl | hq
+        · rcases hskip with h | h
+          · exact absurd h hne
+          · exact hasSimplex_mono i1 h
+        · exact i3 q hq hne
+    · simp only [not_or, Bool.not_eq_true] at hskip
+      obtain ⟨hpd, hpn⟩ := hm p (by simp)
+      rw [scStep_add s p.1 p.2 _ hskip.1 hskip.2 hp hpn hpd]
+      obtain ⟨i1, i2, i3, i4, i5, i6, i7, i8, i9, i10, i11⟩ := ih
+        { a := { s.a with net := { nodes := s.a.net.nodes, edges := s.a.net.edges ++ [(p.1, p.2)] },
+                          eattr := upd s.a.eattr p.1 (Attrs.update [] (g p.1)) },
+          uid := bump s.uid p.1, faces := s.faces ++ subfaces p.2 }
+        (by simpa [Net.edgeIds] using hk)
+        (fun q hq => hm q (by simp [hq])) (fresh_bump hf p.1 p.2)
+      refine ⟨fun q hq => i1 q (by simp [hq]), ?_, ?_, fun f hf' => i4 f (by simp [hf']), ?_, ?_, i7, i8, i9, i10, ?_⟩
+      · intro q hq
+        rcases i2 q hq with h | ⟨h1, h2⟩
+        · simp only [List.mem_append, List.mem_singleton] at h
+          rcases h with h | rfl
+          · exact Or.inl h
+          · right
+            refine ⟨by simp, ?_⟩
+            rw [i11 _ (by simp [Net.edgeIds])]; simp
+        · exact Or.inr ⟨by simp [h1], h2⟩
+      · intro q hq hne
+        simp only [List.mem_cons] at hq
+        rcases hq with rfl | hq
+        · exact hasSimplex_mono i1 (hasSimplex_self _ (q.1, q.2) (by simp))
+        · exact i3 q hq hne
+      · intro q hq
+        rcases i5 q hq with h | h
+        · simp only [List.mem_append, List.mem_singleton] at h
+          rcases h with h | rfl
+          · exact Or.inl h
+          · right; intro f hf'; exact i4 f (by simp [hf'])
+        · exact Or.inr h
+      · intro f hf'
+        rcases i6 f hf' with h | ⟨q, hq, h⟩
+        · simp only [List.mem_append] at h
+          rcases h with h | h
+          · exact Or.inl h
+          · exact Or.inr ⟨(p.1, p.2), i1 _ (by simp), h⟩
+        · exact Or.inr ⟨q, hq, h⟩
+      · intro e he
+        rw [i11 e (by simp only [Net.edgeIds, List.map_append, List.mem_append] at he ⊢; exact Or.inl he)]
+        have : e ≠ p.1 := fun h => hp (h ▸ he)
+        simp [this]
+
+theorem toSimplicialComplex_spec (src : ANet) (hw : AWF src) :
+    (toSimplicialComplex src).cls = .sc ∧ (toSimplicialComplex src).net.nodes = src.net.nodes ∧
+    (toSimplicialComplex src).gattr = src.gattr ∧
+    (∀ n ∈ src.net.nodes, (toSimplicialComplex src).nattr n = src.nattr n) ∧
+    -- every non-empty source edge's member set is a simplex of the result
+    (∀ p ∈ src.net.edges, p.2 ≠ [] → hasSimplex (toSimplicialComplex src).net.edges p.2 = true) ∧
+    -- the result is closed under taking faces with at least two nodes
+    (∀ q ∈ (toSimplicialComplex src).net.edges, ∀ f : List PyId, f.Sublist q.2 → 2 ≤ f.length →
+        hasSimplex (toSimplicialComplex src).net.edges f = true) ∧
+    -- every simplex of the result is a source edge (ID, members and attributes kept) or an attribute-less
+    -- proper face of one
+    (∀ q ∈ (toSimplicialComplex src).net.edges,
+        (q ∈ src.net.edges ∧ (toSimplicialComplex src).eattr q.1 = src.eattr q.1) ∨
+        ((toSimplicialComplex src).eattr q.1 = [] ∧ ∃ p ∈ src.net.edges, q.2 ∈ subfaces p.2)) := by
+  obtain ⟨⟨w1, w2, w3⟩, wg, wn, we⟩ := hw
+  refine ⟨cls_toSimplicialComplex src, ?_⟩
+  unfold toSimplicialComplex
+  simp only
+  obtain ⟨n1, n2, n3, n4, n5, n6, _⟩ := nodeFold_spec src.net.nodes src.nattr (emptyANet .sc) (by simpa [emptyANet, emptyNet] using w1)
+  generalize (src.net.nodes.foldl (fun a n => aAddNode a n (src.nattr n)) (emptyANet .sc)) = a1 at n1 n2 n3 n4 n5 n6 ⊢
+  simp only [emptyANet, emptyNet, List.nil_append] at n1 n2 n3 n4 n5
+  obtain ⟨s1, s2, s3, s4, s5, s6, s7, s8, s9, s10, s11⟩ := edgeStage_spec src.net.edges src.eattr
+    { a := a1, uid := 0, faces := [] }
+    (by simp only [Net.edgeIds, n2, List.map_nil, List.nil_append]; exact w2)
+    (fun p hp => ⟨(w3 p hp).1, fun x hx => by simp only; rw [n1]; exact (w3 p hp).2 x hx⟩)
+    (by intro i hi; simp only [n2, List.map_nil, List.not_mem_nil] at hi)
+  generalize (src.net.edges.foldl (fun s p => scStep s p.1 p.2 (src.eattr p.1)) { a := a1, uid := 0, faces := [] }) = st
+    at s1 s2 s3 s4 s5 s6 s7 s8 s9 s10 s11 ⊢
+  simp only [n2, List.not_mem_nil, false_or] at s2 s5 s6
+  -- the collected faces are proper faces of kept edges, which are source edges
+  have hface : ∀ f ∈ st.faces, ∃ p ∈ src.net.edges, p ∈ st.a.net.edges ∧ f ∈ subfaces p.2 := by
+    intro f hf
+    obtain ⟨q, hq, hfq⟩ := s6 f hf
+    exact ⟨q, (s2 q hq).1, hq, hfq⟩
+  obtain ⟨j1, j2, j3, j4, j5, j6, j7⟩ := faceFold_spec st.faces st.a st.uid s7
+    (fun f hf x hx => by
+      obtain ⟨p, hp, _, hfp⟩ := hface f hf
+      rw [mem_subfaces] at hfp
+      rw [s8]; simp only; rw [n1]
+      exact (w3 p hp).2 x (hfp.1.subset hx))
+    (fun f hf => by
+      obtain ⟨p, hp, _, hfp⟩ := hface f hf
+      rw [mem_subfaces] at hfp
+      exact List.Nodup.sublist hfp.1 (w3 p hp).1)
+  generalize (st.faces.foldl addFace (st.a, st.uid)) = r at j1 j2 j3 j4 j5 j6 j7 ⊢
+  refine ⟨by show r.1.net.nodes = _; rw [j4, s8]; exact n1, trivial, ?_, ?_, ?_, ?_⟩
+  · intro n hn
+    show r.1.nattr n = _
+    rw [j5, s9]; simp only; rw [n6 n hn, attrs_update_nil (wn n hn)]
+  · intro p hp hne
+    exact hasSimplex_mono j1 (s3 p hp hne)
+  · intro q hq f hfq hlen
+    show hasSimplex r.1.net.edges f = true
+    have hq' : q ∈ r.1.net.edges := hq
+    by_cases hl : f.length = q.2.length
+    · have : f = q.2 := hfq.eq_of_length hl
+      rw [this]; exact hasSimplex_self _ q hq'
+    · have hlt : f.length < q.2.length := Nat.lt_of_le_of_ne hfq.length_le hl
+      have hfne : f ≠ [] := by intro h; rw [h] at hlen; simp at hlen
+      rcases j3 q hq' with h | ⟨h1, _, _⟩
+      · exact j2 f (s5 q h f ((mem_subfaces _ _).mpr ⟨hfq, hlen, hlt⟩)) hfne
+      · obtain ⟨p, hp, hpst, hfp⟩ := hface q.2 h1
+        rw [mem_subfaces] at hfp
+        exact j2 f (s5 p hpst f ((mem_subfaces _ _).mpr ⟨hfq.trans hfp.1, hlen, Nat.lt_trans hlt hfp.2.2⟩)) hfne
+  · intro q hq
+    have hq' : q ∈ r.1.net.edges := hq
+    show (q ∈ src.net.edges ∧ r.1.eattr q.1 = src.eattr q.1) ∨ (r.1.eattr q.1 = [] ∧ _)
+    rcases j3 q hq' with h | ⟨h1, h2, _⟩
+    · left
+      obtain ⟨hqs, hqa⟩ := s2 q h
+      refine ⟨hqs, ?_⟩
+      rw [j7 q.1 (by unfold Net.edgeIds; rw [List.mem_map]; exact ⟨q, h, rfl⟩), hqa]
+      exact attrs_update_nil (we q.1 (by unfold Net.edgeIds; rw [List.mem_map]; exact ⟨q, hqs, rfl⟩))
+    · right
+      obtain ⟨p, hp, _, hfp⟩ := hface q.2 h1
+      exact ⟨h2, p, hp, hfp⟩
+
+
+theorem inc_iff_of_wf {h : Net} (hw : h.WF) {p : PyId × List PyId} (hp : p ∈ h.edges) (x : PyId) :
+    Inc h x p.1 ↔ x ∈ p.2 := by
+  constructor
+  · rintro ⟨q, hq, hqe, hx⟩
+    have := eq_of_key_eq hw.2.1 hq hp hqe
+    rw [← this]; exact hx
+  · intro hx; exact ⟨p, hp, rfl, hx⟩
+
+theorem hasSimplex_congr (es : List (PyId × List PyId)) {ms ms' : List PyId} (h : ∀ z, z ∈ ms ↔ z ∈ ms') :
+    hasSimplex es ms = true → hasSimplex es ms' = true := by
+  rw [hasSimplex_iff, hasSimplex_iff]
+  rintro ⟨q, hq, h1⟩
+  exact ⟨q, hq, fun z => (h1 z).trans (h z)⟩
+
+theorem mem_toBipartiteEdgelist (h : Net) (n e : PyId) : (n, e) ∈ toBipartiteEdgelist h ↔ Inc h n e := by
+  unfold toBipartiteEdgelist Inc
+  simp only [List.mem_flatMap, List.mem_map, Prod.mk.injEq]
+  constructor
+  · rintro ⟨p, hp, m, hm, rfl, rfl⟩; exact ⟨p, hp, rfl, hm⟩
+  · rintro ⟨p, hp, rfl, hm⟩; exact ⟨p, hp, n, hm, rfl, rfl⟩
+
+theorem mem_toDataframe (h : Net) (n e : PyId) : (n, e) ∈ toDataframe h ↔ n ∈ h.nodes ∧ Inc h n e := by
+  unfold toDataframe Inc Net.memberships
+  simp only [List.mem_flatMap, List.mem_map, List.mem_filter, Prod.mk.injEq, decide_eq_true_eq]
+  constructor
+  · rintro ⟨m, hm, e', ⟨p, ⟨hp, hmp⟩, rfl⟩, rfl, rfl⟩; exact ⟨hm, p, hp, rfl, hmp⟩
+  · rintro ⟨hn, p, hp, rfl, hnp⟩; exact ⟨n, hn, p.1, ⟨p, ⟨hp, hnp⟩, rfl⟩, rfl, rfl⟩
+
+/-! ### directed bipartite graph -/
+
+@[simp] theorem edges_dAddNodes (ns : List PyId) (h : DiNet) : (dAddNodes ns h).edges = h.edges := by
+  induction ns generalizing h with
+  | nil => rfl
+  | cons a t ih => simp only [dAddNodes, List.foldl_cons] at ih ⊢; rw [ih]; rfl
+
+theorem mem_nodes_dAddNodes (ns : List PyId) (h : DiNet) (n : PyId) : n ∈ (dAddNodes ns h).nodes ↔ n ∈ h.nodes ∨ n ∈ ns := by
+  induction ns generalizing h with
+  | nil => simp [dAddNodes]
+  | cons a t ih =>
+    simp only [dAddNodes, List.foldl_cons] at ih ⊢
+    rw [ih]; simp only [dAddNode, mem_ins, List.mem_cons]
+    constructor
+    · rintro ((h1 | h1) | h1)
+      · exact Or.inr (Or.inl h1)
+      · exact Or.inl h1
+      · exact Or.inr (Or.inr h1)
+    · rintro (h1 | h1 | h1)
+      · exact Or.inl (Or.inr h1)
+      · exact Or.inl (Or.inl h1)
+      · exact Or.inr h1
+
+theorem dInc_dAddNodes (ns : List PyId) (h : DiNet) (n e : PyId) (d : Dir) : DInc (dAddNodes ns h) n e d ↔ DInc h n e d := by
+  unfold DInc; rw [edges_dAddNodes]
+
+theorem fromBipartiteGraphDi_ok_iff (G : BGraph) :
+    (∃ r, fromBipartiteGraphDi G = .ok r) ↔ flagsOk G = true ∧ isBipartite G = true := by
+  unfold fromBipartiteGraphDi
+  cases flagsOk G <;> cases isBipartite G <;> simp
+
+theorem fromBipartiteGraphDi_eq {G : BGraph} {r : DiNet} (h : fromBipartiteGraphDi G = .ok r) :
+    flagsOk G = true ∧ isBipartite G = true ∧
+      r = dLinkAll (G.edges.map (orientDi (edgeVerts G))) (dAddNodes (nodeVerts G) emptyDiNet) := by
+  unfold fromBipartiteGraphDi at h
+  cases hf : flagsOk G <;> cases hb : isBipartite G <;> simp [hf, hb] at h
+  exact ⟨rfl, rfl, h.symm⟩
+
+/-- directed graph: an arc node-vertex → edge-vertex is a tail incidence, edge-vertex → node-vertex a head
+    incidence -/
+theorem fromBipartiteGraphDi_inc {G : BGraph} {r : DiNet} (hr : fromBipartiteGraphDi G = .ok r) (hw : GWF G)
+    (n e : PyId) (d : Dir) :
+    DInc r n e d ↔ n ∈ nodeVerts G ∧ e ∈ edgeVerts G ∧
+      (match d with | .tail => (n, e) ∈ G.edges | .head => (e, n) ∈ G.edges) := by
+  obtain ⟨hf, hb, rfl⟩ := fromBipartiteGraphDi_eq hr
+  rw [isBipartite_iff] at hb
+  rw [dInc_dLinkAll, dInc_dAddNodes]
+  simp only [dInc_emptyDiNet, false_or, List.mem_map]
+  constructor
+  · rintro ⟨⟨u, v⟩, hp, ho⟩
+    have hb' := hb _ hp
+    obtain ⟨hu, hv⟩ := hw.2 _ hp
+    simp only at hb' hu hv
+    unfold orientDi at ho
+    simp only at ho
+    split at ho
+    · rename_i hve
+      simp only [Prod.mk.injEq] at ho
+      obtain ⟨rfl, rfl, rfl⟩ := ho
+      exact ⟨hb'.mpr hve, hve, hp⟩
+    · rename_i hve
+      simp only [Prod.mk.injEq] at ho
+      obtain ⟨rfl, rfl, rfl⟩ := ho
+      have h3 : v ∈ nodeVerts G := (vertex_dichotomy hw hf hv).mpr hve
+      have h4 : ¬ u ∈ nodeVerts G := fun h => hve (hb'.mp h)
+      have h5 : u ∈ edgeVerts G := by
+        by_cases h : u ∈ edgeVerts G
+        · exact h
+        · exact absurd ((vertex_dichotomy hw hf hu).mpr h) h4
+      exact ⟨h3, h5, hp⟩
+  · rintro ⟨hn, he, hp⟩
+    cases d
+    · refine ⟨(n, e), hp, ?_⟩
+      simp [orientDi, he]
+    · refine ⟨(e, n), hp, ?_⟩
+      have : ¬ n ∈ edgeVerts G := (vertex_dichotomy hw hf (nodeVert_is_vertex G hn)).mp hn
+      simp [orientDi, this]
+
+theorem mem_verts_toBGDi (h : DiNet) (x : PyId) (f : Option Int) :
+    (x, f) ∈ (toBipartiteGraphDi h).G.verts ↔
+      (∃ i v, h.nodes[i]? = some v ∧ x = PyId.int (i : Nat) ∧ f = some 0) ∨
+      (∃ j p, h.edges[j]? = some p ∧ x = PyId.int (h.nodes.length + j : Nat) ∧ f = some 1) := by
+  unfold toBipartiteGraphDi
+  simp only [List.mem_append, List.mem_map, Prod.mk.injEq, List.mem_zipIdx_iff_getElem?]
+  constructor
+  · rintro (⟨⟨v, i⟩, hv, rfl, rfl⟩ | ⟨⟨p, j⟩, hp, rfl, rfl⟩)
+    · exact Or.inl ⟨i, v, hv, rfl, rfl⟩
+    · exact Or.inr ⟨j, p, hp, rfl, rfl⟩
+  · rintro (⟨i, v, hv, rfl, rfl⟩ | ⟨j, p, hp, rfl, rfl⟩)
+    · exact Or.inl ⟨(v, i), hv, rfl, rfl⟩
+    · exact Or.inr ⟨(p, j), hp, rfl, rfl⟩
+
+theorem mem_nodeVerts_toBGDi (h : DiNet) (x : PyId) :
+    x ∈ nodeVerts (toBipartiteGraphDi h).G ↔ ∃ i v, h.nodes[i]? = some v ∧ x = PyId.int (i : Nat) := by
+  rw [mem_nodeVerts, mem_verts_toBGDi]
+  constructor
+  · rintro (⟨i, v, hv, rfl, _⟩ | ⟨j, p, hp, rfl, hf⟩)
+    · exact ⟨i, v, hv, rfl⟩
+    · simp at hf
+  · rintro ⟨i, v, hv, rfl⟩; exact Or.inl ⟨i, v, hv, rfl, rfl⟩
+
+theorem mem_edgeVerts_toBGDi (h : DiNet) (x : PyId) :
+    x ∈ edgeVerts (toBipartiteGraphDi h).G ↔ ∃ j p, h.edges[j]? = some p ∧ x = PyId.int (h.nodes.length + j : Nat) := by
+  rw [mem_edgeVerts, mem_verts_toBGDi]
+  constructor
+  · rintro (⟨i, v, hv, rfl, hf⟩ | ⟨j, p, hp, rfl, _⟩)
+    · simp at hf
+    · exact ⟨j, p, hp, rfl⟩
+  · rintro ⟨j, p, hp, rfl⟩; exact Or.inr ⟨j, p, hp, rfl, rfl⟩
+
+theorem mem_edges_toBGDi (h : DiNet) (x y : PyId) :
+    (x, y) ∈ (toBipartiteGraphDi h).G.edges ↔
+      (∃ i v j p, h.nodes[i]? = some v ∧ h.edges[j]? = some p ∧ v ∈ p.2.1 ∧
+        x = PyId.int (i : Nat) ∧ y = PyId.int (h.nodes.length + j : Nat)) ∨
+      (∃ i v j p, h.nodes[i]? = some v ∧ h.edges[j]? = some p ∧ v ∈ p.2.2 ∧
+        y = PyId.int (i : Nat) ∧ x = PyId.int (h.nodes.length + j : Nat)) := by
+  unfold toBipartiteGraphDi
+  simp only [List.mem_append, List.mem_flatMap, List.mem_filterMap, List.mem_zipIdx_iff_getElem?]
+  constructor
+  · rintro (⟨⟨v, i⟩, hv, ⟨p, j⟩, hp, h1⟩ | ⟨⟨p, j⟩, hp, ⟨v, i⟩, hv, h1⟩)
+    · simp only at hv hp h1
+      split at h1
+      · rename_i hm
+        simp only [Option.some.injEq, Prod.mk.injEq] at h1
+        exact Or.inl ⟨i, v, j, p, hv, hp, hm, h1.1.symm, h1.2.symm⟩
+      · simp at h1
+    · simp only at hv hp h1
+      split at h1
+      · rename_i hm
+        simp only [Option.some.injEq, Prod.mk.injEq] at h1
+        exact Or.inr ⟨i, v, j, p, hv, hp, hm, h1.2.symm, h1.1.symm⟩
+      · simp at h1
+  · rintro (⟨i, v, j, p, hv, hp, hm, rfl, rfl⟩ | ⟨i, v, j, p, hv, hp, hm, rfl, rfl⟩)
+    · exact Or.inl ⟨(v, i), hv, (p, j), hp, by simp [hm]⟩
+    · exact Or.inr ⟨(p, j), hp, (v, i), hv, by simp [hm]⟩
+
+theorem gwf_toBGDi (h : DiNet) : GWF (toBipartiteGraphDi h).G := by
+  constructor
+  · have : (toBipartiteGraphDi h).G.verts.map (·.1) =
+        h.nodes.zipIdx.map (fun vi => PyId.int (vi.2 : Nat)) ++
+        h.edges.zipIdx.map (fun pj => PyId.int (h.nodes.length + pj.2 : Nat)) := by
+      unfold toBipartiteGraphDi; simp [List.map_map, Function.comp_def]
+    rw [this, List.nodup_append]
+    refine ⟨nodup_zipIdx_map _ _ int_inj, nodup_zipIdx_map _ (fun j => PyId.int (h.nodes.length + j : Nat)) ?_, ?_⟩
+    · intro a b hab; have := int_inj _ _ hab; omega
+    · intro a ha b hb hab
+      simp only [List.mem_map, List.mem_zipIdx_iff_getElem?] at ha hb
+      obtain ⟨⟨v, i⟩, hv, rfl⟩ := ha
+      obtain ⟨⟨p, j⟩, hp, rfl⟩ := hb
+      have := int_inj _ _ hab
+      have := getElem?_lt hv
+      simp only at *
+      omega
+  · rintro ⟨x, y⟩ hp
+    rw [mem_edges_toBGDi] at hp
+    simp only [List.mem_map]
+    rcases hp with ⟨i, v, j, p, hv, hp, _, rfl, rfl⟩ | ⟨i, v, j, p, hv, hp, _, rfl, rfl⟩
+    · exact ⟨⟨_, (mem_verts_toBGDi h _ _).mpr (Or.inl ⟨i, v, hv, rfl, rfl⟩), rfl⟩,
+             ⟨_, (mem_verts_toBGDi h _ _).mpr (Or.inr ⟨j, p, hp, rfl, rfl⟩), rfl⟩⟩
+    · exact ⟨⟨_, (mem_verts_toBGDi h _ _).mpr (Or.inr ⟨j, p, hp, rfl, rfl⟩), rfl⟩,
+             ⟨_, (mem_verts_toBGDi h _ _).mpr (Or.inl ⟨i, v, hv, rfl, rfl⟩), rfl⟩⟩
+
+theorem ok_toBGDi (h : DiNet) : flagsOk (toBipartiteGraphDi h).G = true ∧ isBipartite (toBipartiteGraphDi h).G = true := by
+  constructor
+  · rw [flagsOk_iff]
+    rintro ⟨x, f⟩ hp
+    rw [mem_verts_toBGDi] at hp
+    rcases hp with ⟨_, _, _, _, rfl⟩ | ⟨_, _, _, _, rfl⟩
+    · exact Or.inl rfl
+    · exact Or.inr rfl
+  · rw [isBipartite_iff]
+    rintro ⟨x, y⟩ hp
+    rw [mem_edges_toBGDi] at hp
+    simp only [mem_nodeVerts_toBGDi, mem_edgeVerts_toBGDi]
+    rcases hp with ⟨i, v, j, p, hv, hp, _, rfl, rfl⟩ | ⟨i, v, j, p, hv, hp, _, rfl, rfl⟩
+    · exact ⟨fun _ => ⟨j, p, hp, rfl⟩, fun _ => ⟨i, v, hv, rfl⟩⟩
+    · constructor
+      · rintro ⟨i', v', hv', h1⟩
+        have := int_inj _ _ h1
+        have := getElem?_lt hv'
+        omega
+      · rintro ⟨j', p', hp', h1⟩
+        have := int_inj _ _ h1
+        have := getElem?_lt hv
+        omega
+
+theorem mem_itn_toBGDi (h : DiNet) (x n : PyId) :
+    (x, n) ∈ (toBipartiteGraphDi h).itn ↔ ∃ i, h.nodes[i]? = some n ∧ x = PyId.int (i : Nat) := by
+  unfold toBipartiteGraphDi
+  simp only [List.mem_map, Prod.mk.injEq, List.mem_zipIdx_iff_getElem?]
+  constructor
+  · rintro ⟨⟨v, i⟩, hv, rfl, rfl⟩; exact ⟨i, hv, rfl⟩
+  · rintro ⟨i, hv, rfl⟩; exact ⟨(n, i), hv, rfl, rfl⟩
+
+theorem mem_ite_toBGDi (h : DiNet) (y e : PyId) :
+    (y, e) ∈ (toBipartiteGraphDi h).ite ↔ ∃ j p, h.edges[j]? = some p ∧ y = PyId.int (h.nodes.length + j : Nat) ∧ e = p.1 := by
+  unfold toBipartiteGraphDi
+  simp only [List.mem_map, Prod.mk.injEq, List.mem_zipIdx_iff_getElem?]
+  constructor
+  · rintro ⟨⟨p, j⟩, hp, rfl, rfl⟩; exact ⟨j, p, hp, rfl, rfl⟩
+  · rintro ⟨j, p, hp, rfl, rfl⟩; exact ⟨(p, j), hp, rfl, rfl⟩
+
+theorem eq_of_key_eq_di {l : List (PyId × List PyId × List PyId)} (hn : (l.map (·.1)).Nodup) {p q : PyId × List PyId × List PyId}
+    (hp : p ∈ l) (hq : q ∈ l) (h : p.1 = q.1) : p = q := by
+  induction l with
+  | nil => simp at hp
+  | cons a t ih =>
+    simp only [List.map_cons, List.nodup_cons, List.mem_map, not_exists, not_and] at hn
+    simp only [List.mem_cons] at hp hq
+    rcases hp with hp | hp <;> rcases hq with hq | hq
+    · rw [hp, hq]
+    · exact absurd (by rw [← hp, h]) (hn.1 _ hq)
+    · exact absurd (by rw [← hq, ← h]) (hn.1 _ hp)
+    · exact ih hn.2 hp hq
+
+/-! ### directed HIF -/
+
+theorem dAddNode_of_mem (h : DiNet) (n : PyId) (hn : n ∈ h.nodes) : dAddNode h n = h := by
+  unfold dAddNode ins; simp [hn]
+
+theorem dAAddNode_of_nil (a : ADiNet) (n : PyId) (av : Attrs) (h0 : a.nattr n = []) :
+    dAAddNode a n av = { a with net := dAddNode a.net n, nattr := upd a.nattr n (Attrs.update [] av) } := by
+  unfold dAAddNode
+  split
+  · rename_i hn; rw [dAddNode_of_mem _ _ hn, h0]
+  · rfl
+
+theorem dNodeRecFold_spec (ns : List PyId) (f : PyId → Attrs) (a0 : ADiNet) (hk : ns.Nodup)
+    (h0 : ∀ n ∈ ns, a0.nattr n = []) :
+    (∀ n, n ∈ (ns.foldl (fun a n => dAAddNode a n (f n)) a0).net.nodes ↔ n ∈ a0.net.nodes ∨ n ∈ ns) ∧
+    (ns.foldl (fun a n => dAAddNode a n (f n)) a0).net.edges = a0.net.edges ∧
+    (ns.foldl (fun a n => dAAddNode a n (f n)) a0).eattr = a0.eattr ∧
+    (ns.foldl (fun a n => dAAddNode a n (f n)) a0).gattr = a0.gattr ∧
+    (∀ n ∈ ns, (ns.foldl (fun a n => dAAddNode a n (f n)) a0).nattr n = Attrs.update [] (f n)) ∧
+    (∀ n, n ∉ ns → (ns.foldl (fun a n => dAAddNode a n (f n)) a0).nattr n = a0.nattr n) ∧
+    (a0.net.nodes.Nodup → (ns.foldl (fun a n => dAAddNode a n (f n)) a0).net.nodes.Nodup) := by
+  induction ns generalizing a0 with
+  | nil => simp
+  | cons m t ih =>
+    simp only [List.nodup_cons] at hk
+    simp only [List.foldl_cons]
+    rw [dAAddNode_of_nil a0 m (f m) (h0 m (by simp))]
+    obtain ⟨i1, i2, i3, i4, i6, i7, i8⟩ := ih
+      { a0 with net := dAddNode a0.net m, nattr := upd a0.nattr m (Attrs.update [] (f m)) } hk.2
+      (fun n hn => by
+        have : n ≠ m := fun h => hk.1 (h ▸ hn)
+        simp only [upd_apply, this, if_false]; exact h0 n (by simp [hn]))
+    refine ⟨?_, i2, i3, i4, ?_, ?_, ?_⟩
+    · intro n; rw [i1 n]; simp only [dAddNode, mem_ins, List.mem_cons]
+      constructor
+      · rintro ((h | h) | h)
+        · exact Or.inr (Or.inl h)
+        · exact Or.inl h
+        · exact Or.inr (Or.inr h)
+      · rintro (h | h | h)
+        · exact Or.inl (Or.inr h)
+        · exact Or.inl (Or.inl h)
+        · exact Or.inr h
+    · intro n hn
+      simp only [List.mem_cons] at hn
+      rcases hn with rfl | hn
+      · rw [i7 n hk.1]; simp
+      · exact i6 n hn
+    · intro n hn
+      simp only [List.mem_cons, not_or] at hn
+      rw [i7 n hn.2]; simp [hn.1]
+    · intro hnd; exact i8 (by simp only [dAddNode]; exact nodup_ins hnd)
+
+def dEdgeRecStep (f : PyId → Attrs) (a : ADiNet) (e : PyId) : ADiNet :=
+  if e ∈ dEdgeIds a.net then dASetEdgeAttr a e (f e) else dAAddEdge a e [] [] (f e)
+
+theorem dEdgeRecStep_of_nil (f : PyId → Attrs) (a : ADiNet) (e : PyId) (h0 : a.eattr e = []) :
+    dEdgeRecStep f a e = { a with net := dEnsureEdge a.net e, eattr := upd a.eattr e (Attrs.update [] (f e)) } := by
+  unfold dEdgeRecStep
+  split
+  · rename_i he
+    unfold dASetEdgeAttr dEnsureEdge; simp [he, h0]
+  · rename_i he
+    unfold dAAddEdge dEnsureEdge dAddEdge; simp [he, dedup]
+
+theorem dInc_dEnsureEdge (h : DiNet) (e n e' : PyId) (d : Dir) : DInc (dEnsureEdge h e) n e' d ↔ DInc h n e' d := by
+  simp only [dInc_iff]
+  unfold dEnsureEdge
+  split
+  · rfl
+  · simp only [List.mem_append, List.mem_singleton]
+    constructor
+    · rintro ⟨p, (hp | rfl), h1, h2⟩
+      · exact ⟨p, hp, h1, h2⟩
+      · cases d <;> simp [side] at h2
+    · rintro ⟨p, hp, h1, h2⟩; exact ⟨p, Or.inl hp, h1, h2⟩
+
+theorem dwf_dEnsureEdge {h : DiNet} (hw : DWF h) (e : PyId) : DWF (dEnsureEdge h e) := by
+  obtain ⟨h1, h2, h3⟩ := hw
+  refine ⟨by simpa using h1, ?_, ?_⟩
+  · have := dEdgeIds_dEnsureEdge h e
+    unfold dEdgeIds at this; rw [this]; exact nodup_ins h2
+  · intro p hp
+    rw [nodes_dEnsureEdge]
+    unfold dEnsureEdge at hp
+    split at hp
+    · exact h3 p hp
+    · simp only [List.mem_append, List.mem_singleton] at hp
+      rcases hp with hp | rfl
+      · exact h3 p hp
+      · simp
+
+theorem dEdgeRecFold_spec (es : List PyId) (f : PyId → Attrs) (a0 : ADiNet) (hk : es.Nodup)
+    (h0 : ∀ e ∈ es, a0.eattr e = []) :
+    (∀ e, e ∈ dEdgeIds (es.foldl (dEdgeRecStep f) a0).net ↔ e ∈ dEdgeIds a0.net ∨ e ∈ es) ∧
+    (es.foldl (dEdgeRecStep f) a0).net.nodes = a0.net.nodes ∧
+    (∀ n e d, DInc (es.foldl (dEdgeRecStep f) a0).net n e d ↔ DInc a0.net n e d) ∧
+    (es.foldl (dEdgeRecStep f) a0).nattr = a0.nattr ∧
+    (es.foldl (dEdgeRecStep f) a0).gattr = a0.gattr ∧
+    (∀ e ∈ es, (es.foldl (dEdgeRecStep f) a0).eattr e = Attrs.update [] (f e)) ∧
+    (∀ e, e ∉ es → (es.foldl (dEdgeRecStep f) a0).eattr e = a0.eattr e) ∧
+    (DWF a0.net → DWF (es.foldl (dEdgeRecStep f) a0).net) := by
+  induction es generalizing a0 with
+  | nil => simp
+  | cons m t ih =>
+    simp only [List.nodup_cons] at hk
+    simp only [List.foldl_cons]
+    rw [dEdgeRecStep_of_nil f a0 m (h0 m (by simp))]
+    obtain ⟨i1, i2, i3, i4, i5, i7, i8, i9⟩ := ih
+      { a0 with net := dEnsureEdge a0.net m, eattr := upd a0.eattr m (Attrs.update [] (f m)) } hk.2
+      (fun e he => by
+        have : e ≠ m := fun h => hk.1 (h ▸ he)
+        simp only [upd_apply, this, if_false]; exact h0 e (by simp [he]))
+    refine ⟨?_, by rw [i2]; simp, ?_, i4, i5, ?_, ?_, ?_⟩
+    · intro e; rw [i1 e]; simp only [dEdgeIds_dEnsureEdge, mem_ins, List.mem_cons]
+      constructor
+      · rintro ((h | h) | h)
+        · exact Or.inr (Or.inl h)
+        · exact Or.inl h
+        · exact Or.inr (Or.inr h)
+      · rintro (h | h | h)
+        · exact Or.inl (Or.inr h)
+        · exact Or.inl (Or.inl h)
+        · exact Or.inr h
+    · intro n e d; rw [i3 n e d]; exact dInc_dEnsureEdge _ _ _ _ _
+    · intro e he
+      simp only [List.mem_cons] at he
+      rcases he with rfl | he
+      · rw [i8 e hk.1]; simp
+      · exact i7 e he
+    · intro e he
+      simp only [List.mem_cons, not_or] at he
+      rw [i8 e he.2]; simp [he.1]
+    · intro hwf; exact i9 (dwf_dEnsureEdge hwf m)
+
+theorem dLinkFold_eq (rows : List (PyId × PyId × Dir)) (a0 : ADiNet) :
+    rows.foldl (fun a r => { a with net := dLink a.net r.2.1 r.1 r.2.2 }) a0 = { a0 with net := dLinkAll rows a0.net } := by
+  induction rows generalizing a0 with
+  | nil => rfl
+  | cons r t ih => simp only [List.foldl_cons]; rw [ih]; rfl
+
+theorem dIsolated_iff (h : DiNet) (n : PyId) : dIsolated h n = true ↔ ¬ ∃ e d, DInc h n e d := by
+  unfold dIsolated
+  simp only [List.all_eq_true, decide_eq_true_eq, dInc_iff]
+  constructor
+  · rintro h1 ⟨e, d, p, hp, _, hn⟩
+    cases d
+    · exact (h1 p hp).1 hn
+    · exact (h1 p hp).2 hn
+  · intro h1 p hp
+    exact ⟨fun hn => h1 ⟨p.1, .tail, p, hp, rfl, hn⟩, fun hn => h1 ⟨p.1, .head, p, hp, rfl, hn⟩⟩
+
+theorem bipartiteEdgelistDi_labels (h : DiNet) (hw : DWF h) :
+    (∀ n, n ∈ (fromBipartiteEdgelistDi (toBipartiteEdgelistDi h)).nodes ↔ n ∈ h.nodes ∧ ∃ e d, DInc h n e d) ∧
+    (∀ e, e ∈ dEdgeIds (fromBipartiteEdgelistDi (toBipartiteEdgelistDi h)) ↔ e ∈ dEdgeIds h ∧ ∃ n d, DInc h n e d) := by
+  obtain ⟨_, _, h3⟩ := hw
+  unfold fromBipartiteEdgelistDi
+  constructor
+  · intro n
+    rw [mem_nodes_dLinkAll]
+    simp only [mem_toBipartiteEdgelistDi, emptyDiNet, List.not_mem_nil, false_or]
+    constructor
+    · rintro ⟨e, d, hi⟩
+      refine ⟨?_, e, d, hi⟩
+      rw [dInc_iff] at hi
+      obtain ⟨p, hp, _, hn⟩ := hi
+      cases d
+      · exact (h3 p hp).2.2.1 n hn
+      · exact (h3 p hp).2.2.2 n hn
+    · rintro ⟨_, e, d, he⟩; exact ⟨e, d, he⟩
+  · intro e
+    rw [mem_dEdgeIds_dLinkAll]
+    simp only [mem_toBipartiteEdgelistDi, emptyDiNet, dEdgeIds, List.map_nil, List.not_mem_nil, false_or]
+    constructor
+    · rintro ⟨n, d, hi⟩
+      refine ⟨?_, n, d, hi⟩
+      rw [dInc_iff] at hi
+      obtain ⟨p, hp, he, _⟩ := hi
+      rw [List.mem_map]; exact ⟨p, hp, he⟩
+    · rintro ⟨_, n, d, hn⟩; exact ⟨n, d, hn⟩
+
+theorem hifDNodeStep_eq (a : ADiNet) (n : PyId) (av : Attrs) :
+    (if n ∈ a.net.nodes then dASetNodeAttr a n av else dAAddNode a n av) = dAAddNode a n av := by
+  unfold dASetNodeAttr dAAddNode; split <;> rfl
+
+theorem dAAddNode_fresh (a : ADiNet) (n : PyId) (av : Attrs) (hn : n ∉ a.net.nodes) :
+    dAAddNode a n av = { a with net := { nodes := a.net.nodes ++ [n], edges := a.net.edges },
+                                nattr := upd a.nattr n (Attrs.update [] av) } := by
+  unfold dAAddNode dAddNode ins; simp [hn]
+
+theorem dNodeFold_spec (ns : List PyId) (f : PyId → Attrs) (a0 : ADiNet) (hn : (a0.net.nodes ++ ns).Nodup) :
+    (ns.foldl (fun a n => dAAddNode a n (f n)) a0).net.nodes = a0.net.nodes ++ ns ∧
+    (ns.foldl (fun a n => dAAddNode a n (f n)) a0).net.edges = a0.net.edges ∧
+    (ns.foldl (fun a n => dAAddNode a n (f n)) a0).eattr = a0.eattr ∧
+    (ns.foldl (fun a n => dAAddNode a n (f n)) a0).gattr = a0.gattr ∧
+    (∀ n ∈ ns, (ns.foldl (fun a n => dAAddNode a n (f n)) a0).nattr n = Attrs.update [] (f n)) := by
+  induction ns generalizing a0 with
+  | nil => simp
+  | cons m t ih =>
+    have hm : m ∉ a0.net.nodes := by
+      intro hm
+      rw [List.nodup_append] at hn
+      exact hn.2.2 m hm m (by simp) rfl
+    have hmt : m ∉ t := by
+      rw [List.nodup_append] at hn
+      have := hn.2.1
+      simp only [List.nodup_cons] at this
+      exact this.1
+    simp only [List.foldl_cons]
+    rw [dAAddNode_fresh a0 m (f m) hm]
+    have hnd : ∀ (b : ADiNet) (l : List PyId) (x : PyId), x ∉ l →
+        (l.foldl (fun a n => dAAddNode a n (f n)) b).nattr x = b.nattr x := by
+      intro b l x hx
+      induction l generalizing b with
+      | nil => rfl
+      | cons y l ih2 =>
+        simp only [List.mem_cons, not_or] at hx
+        simp only [List.foldl_cons]
+        rw [ih2 _ hx.2]
+        unfold dAAddNode; split <;> simp [hx.1]
+    obtain ⟨i1, i2, i3, i4, i6⟩ := ih
+      { a0 with net := { nodes := a0.net.nodes ++ [m], edges := a0.net.edges },
+                nattr := upd a0.nattr m (Attrs.update [] (f m)) } (by simpa using hn)
+    refine ⟨by rw [i1]; simp, i2, i3, i4, ?_⟩
+    intro n hn'
+    simp only [List.mem_cons] at hn'
+    rcases hn' with rfl | hn'
+    · rw [hnd _ t n hmt]; simp
+    · exact i6 n hn'
+
+theorem dAddEdge_fresh (h : DiNet) (e : PyId) (t hd : List PyId) (he : e ∉ dEdgeIds h) :
+    dAddEdge h e t hd = { nodes := hd.foldl (fun acc x => ins x acc) (t.foldl (fun acc x => ins x acc) h.nodes),
+                          edges := h.edges ++ [(e, dedup t, dedup hd)] } := by
+  unfold dAddEdge; simp [he]
+
+theorem dAAddEdge_fresh (a : ADiNet) (e : PyId) (t hd : List PyId) (av : Attrs) (he : e ∉ dEdgeIds a.net)
+    (ht : ∀ x ∈ t, x ∈ a.net.nodes) (hh : ∀ x ∈ hd, x ∈ a.net.nodes) :
+    dAAddEdge a e t hd av = { a with net := { nodes := a.net.nodes, edges := a.net.edges ++ [(e, dedup t, dedup hd)] },
+                                     eattr := upd a.eattr e (Attrs.update [] av) } := by
+  unfold dAAddEdge; simp only [he, if_false]
+  rw [dAddEdge_fresh _ _ _ _ he, foldl_ins_noop t _ ht, foldl_ins_noop hd _ hh]
+
+theorem dEdgeFold_spec (es : List (PyId × List PyId × List PyId)) (g : PyId → Attrs) (a0 : ADiNet)
+    (hn : (dEdgeIds a0.net ++ es.map (·.1)).Nodup)
+    (hm : ∀ p ∈ es, (∀ x ∈ p.2.1, x ∈ a0.net.nodes) ∧ (∀ x ∈ p.2.2, x ∈ a0.net.nodes)) :
+    (es.foldl (fun a p => dAAddEdge a p.1 p.2.1 p.2.2 (g p.1)) a0).net.nodes = a0.net.nodes ∧
+    (es.foldl (fun a p => dAAddEdge a p.1 p.2.1 p.2.2 (g p.1)) a0).net.edges =
+        a0.net.edges ++ es.map (fun p => (p.1, dedup p.2.1, dedup p.2.2)) ∧
+    (es.foldl (fun a p => dAAddEdge a p.1 p.2.1 p.2.2 (g p.1)) a0).nattr = a0.nattr ∧
+    (es.foldl (fun a p => dAAddEdge a p.1 p.2.1 p.2.2 (g p.1)) a0).gattr = a0.gattr ∧
+    (∀ p ∈ es, (es.foldl (fun a p => dAAddEdge a p.1 p.2.1 p.2.2 (g p.1)) a0).eattr p.1 = Attrs.update [] (g p.1)) ∧
+    (∀ e, e ∉ es.map (·.1) → (es.foldl (fun a p => dAAddEdge a p.1 p.2.1 p.2.2 (g p.1)) a0).eattr e = a0.eattr e) := by
+  induction es generalizing a0 with
+  | nil => simp
+  | cons q t ih =>
+    have hq : q.1 ∉ dEdgeIds a0.net := by
+      intro hq
+      rw [List.nodup_append] at hn
+      exact hn.2.2 _ hq q.1 (by simp) rfl
+    have hqt : q.1 ∉ t.map (·.1) := by
+      rw [List.nodup_append] at hn
+      have := hn.2.1
+      simp only [List.map_cons, List.nodup_cons] at this
+      exact this.1
+    simp only [List.foldl_cons]
+    rw [dAAddEdge_fresh a0 q.1 q.2.1 q.2.2 (g q.1) hq (hm q (by simp)).1 (hm q (by simp)).2]
+    obtain ⟨i1, i2, i3, i4, i6, i7⟩ := ih
+      { a0 with net := { nodes := a0.net.nodes, edges := a0.net.edges ++ [(q.1, dedup q.2.1, dedup q.2.2)] },
+                eattr := upd a0.eattr q.1 (Attrs.update [] (g q.1)) }
+      (by simpa [dEdgeIds] using hn) (fun p hp => hm p (by simp [hp]))
+    refine ⟨i1, by rw [i2]; simp, i3, i4, ?_, ?_⟩
+    · intro p hp
+      simp only [List.mem_cons] at hp
+      rcases hp with rfl | hp
+      · rw [i7 _ hqt]; simp
+      · exact i6 p hp
+    · intro e he
+      simp only [List.map_cons, List.mem_cons, not_or] at he
+      rw [i7 e he.2]; simp [he.1]
+
+theorem toDiHypergraph_spec (src : ADiNet) (hw : ADWF src) :
+    (toDiHypergraph src).net.nodes = src.net.nodes ∧ (toDiHypergraph src).net.edges = src.net.edges ∧
+    (toDiHypergraph src).gattr = src.gattr ∧
+    (∀ n ∈ src.net.nodes, (toDiHypergraph src).nattr n = src.nattr n) ∧
+    (∀ e ∈ dEdgeIds src.net, (toDiHypergraph src).eattr e = src.eattr e) := by
+  obtain ⟨⟨w1, w2, w3⟩, wg, wn, we⟩ := hw
+  unfold toDiHypergraph
+  simp only
+  obtain ⟨n1, n2, n3, n4, n6⟩ := dNodeFold_spec src.net.nodes src.nattr emptyADiNet (by simpa [emptyADiNet, emptyDiNet] using w1)
+  generalize (src.net.nodes.foldl (fun a n => dAAddNode a n (src.nattr n)) emptyADiNet) = a1 at n1 n2 n3 n4 n6 ⊢
+  simp only [emptyADiNet, emptyDiNet, List.nil_append] at n1 n2 n3
+  obtain ⟨m1, m2, m3, m4, m6, _⟩ := dEdgeFold_spec src.net.edges src.eattr a1
+    (by simp only [dEdgeIds, n2, List.map_nil, List.nil_append]; exact w2)
+    (fun p hp => ⟨fun x hx => by rw [n1]; exact (w3 p hp).2.2.1 x hx, fun x hx => by rw [n1]; exact (w3 p hp).2.2.2 x hx⟩)
+  generalize (src.net.edges.foldl (fun a p => dAAddEdge a p.1 p.2.1 p.2.2 (src.eattr p.1)) a1) = a2 at m1 m2 m3 m4 m6 ⊢
+  rw [n2, List.nil_append] at m2
+  have hedges : a2.net.edges = src.net.edges := by
+    rw [m2]
+    conv => rhs; rw [← List.map_id src.net.edges]
+    apply List.map_congr_left
+    intro p hp
+    rw [dedup_of_nodup (w3 p hp).1, dedup_of_nodup (w3 p hp).2.1]; rfl
+  refine ⟨by show a2.net.nodes = _; rw [m1, n1], hedges, trivial, ?_, ?_⟩
+  · intro n hn
+    show a2.nattr n = _
+    rw [m3, n6 n hn, attrs_update_nil (wn n hn)]
+  · intro e he
+    show a2.eattr e = _
+    have he' := he
+    unfold dEdgeIds at he; rw [List.mem_map] at he
+    obtain ⟨p, hp, rfl⟩ := he
+    rw [m6 p hp, attrs_update_nil (we p.1 he')]
+
 end Xgi.C10
